@@ -1,19 +1,31 @@
 """Implementation side of C13: side effects, repeatability, leftovers, for every public estimator.
 
-JSON in: {"jobs": [[estimator_name, seed], ...], "tmpdir": <private empty dir>}   (TMPDIR is set by the parent)
-JSON out: one record per job: {"est", "seed", "desc", "calls", "raised", "aliases", "violations": [{kind, detail}], "error"}.
+JSON in:  {"jobs": [{"est", "seed", "part", "nparts", "only", "where"}, ...], "tmpdir": <private empty dir>}   (TMPDIR set by the parent)
+JSON out: one record per scenario (= one CELL of the estimator's table, see TABLES below).
 
-For one job (a scenario drawn deterministically from (estimator, seed)):
-  1. build the constructor parameter objects and the data; snapshot EVERY caller-owned object;
-  2. [optional fault stage] a fit made to raise part-way (blockwise Wasserstein fit with a fault injected into the k-th
-     block, an invalid reference distribution, a generator that raises), checked like every other call;
-  3. fit (or fit_transform); then a random history of transform calls over a pool of persistent caller objects,
-     possibly containing a poisoned input that raises;
-  after EVERY call (returning or raising): all snapshots are compared (array level incl. dtype; sparse: format, data,
-  indices/indptr order, explicit zeros; dict contents; lists of lists; lil rows), TMPDIR and cachedir are listed;
-  4. every history output is compared with the output of a single transform on a freshly constructed and fitted
-     estimator (fresh copies of parameters and data), exceptions by class;
-  5. the public fitted attributes of the two fits (same integer random_state where there is one) are compared to 1e-9.
+The table.  For every estimator `cells_<name>(seed)` lists the sensitive configurations (deterministically: the
+primary dimensions are fully crossed, the secondary ones are rotated through the cells starting at an offset drawn from
+the seed, and there are at least as many cells as a secondary dimension has values, so EVERY run covers every value of
+every dimension).  `sc_<name>(rng, cell, fixed)` builds the scenario of one cell; the data inside a scenario again rotate
+through every per-item container/format (each tree a different adjacency format, each sequence a different inner
+container, each pool input a different sparse format ...).
+
+One scenario:
+  1. build the constructor parameter objects and the data; snapshot EVERY caller-owned object (values, dtypes, sparse
+     internals, and the IDENTITY of the elements of lists / tuples / dicts / object arrays);
+  2. [fault stage] a fit made to raise part-way (fault injected into the k-th block, an invalid reference distribution,
+     a generator that raises at item k), checked like every other call;
+  3. fit or fit_transform; a deterministic history over a pool of persistent caller objects
+        A, B, A, B-raising-in-block-k, A, malformed input, every other pool input, A
+     where B has the SAME SHAPE as A and different contents (different `vectors`, different tokens over a vocabulary of
+     the same size, a different matrix of the same shape);
+  4. every history output is compared with a single transform on an untouched deep copy of the fitted estimator (a
+     freshly constructed and fitted estimator where the object cannot be copied), exceptions by class;
+  5. the public fitted attributes of two fits (same integer random_state where there is one) are compared;
+  6. REFIT of the same estimator object on other data of the same shape, transforms of A and B, compared with a fresh
+     estimator fitted on the new data only (model and outputs);
+  after EVERY call (returning or raising): all snapshots are compared, TMPDIR, cachedir and the working directory are
+  listed recursively.
 """
 import copy, json, os, sys, tempfile, traceback, types, warnings, zlib
 warnings.filterwarnings("ignore")
@@ -25,10 +37,34 @@ import vectorizers as V
 import vectorizers.transformers as T
 import vectorizers.linear_optimal_transport as LOT
 
-RTOL, ATOL = 1e-9, 1e-12
+TOL = 1e-9          # "to 1e-9": max |a - b| <= TOL * max(1, max |b|)
+
+# Speed only: NgramCooccurrenceVectorizer asks utils.make_tuple_converter(ngram_size) for a NEW numba closure in every
+# fit, and numba recompiles the whole skip-gram kernel for each new closure (~3 s per fit, ~12 fits per scenario).  The
+# closure depends on ngram_size only, so the harness hands back the same one for the same size.
+import functools
+import vectorizers.ngram_token_cooccurence_vectorizer as _NGC
+_NGC.make_tuple_converter = functools.lru_cache(maxsize=None)(_NGC.make_tuple_converter)
+
+
+class GenOf:
+    """a generator input: the items live in a caller-owned list (watched); a fresh generator is made for every call"""
+    def __init__(self, src):
+        self.src = src
+
+    def make(self):
+        return (x for x in self.src)
 
 
 # ------------------------------------------------------------------ snapshots of caller-owned objects
+_SCALAR = (bool, int, float, str, bytes, complex, type(None), np.generic)
+
+
+def ident(x):
+    """identity of an element of a caller's container (0 for immutable scalars, whose identity means nothing)"""
+    return ("id", 0 if isinstance(x, _SCALAR) else id(x))
+
+
 def snap(o, depth=0):
     if depth > 8:
         return ("deep",)
@@ -38,7 +74,7 @@ def snap(o, depth=0):
         return ("npv", o.dtype.str, repr(o.item()))
     if isinstance(o, np.ndarray):
         if o.dtype == object:
-            return ("ndo", o.shape, [snap(x, depth + 1) for x in o.ravel().tolist()])
+            return ("ndo", o.shape, [(ident(x), snap(x, depth + 1)) for x in o.ravel().tolist()])
         return ("nd", o.dtype.str, o.shape, o.tobytes())
     if sp.issparse(o):
         f = o.format
@@ -54,10 +90,14 @@ def snap(o, depth=0):
         if f == "dok":
             return head + (sorted((k, repr(v)) for k, v in o.items()),)
         return head + (snap(o.tocoo()),)
+    if isinstance(o, GenOf):
+        return ("genof", snap(o.src, depth + 1))
     if isinstance(o, dict):
-        return ("dict", sorted(((repr(k), snap(v, depth + 1)) for k, v in o.items())))
-    if isinstance(o, (list, tuple, numba.typed.List)):
-        return ("seq", type(o).__name__, [snap(x, depth + 1) for x in o])
+        return ("dict", sorted(((repr(k), ident(v), snap(v, depth + 1)) for k, v in o.items())))
+    if isinstance(o, (list, tuple)):
+        return ("seq", type(o).__name__, [(ident(x), snap(x, depth + 1)) for x in o])
+    if isinstance(o, numba.typed.List):
+        return ("seq", "typedlist", [(("id", 0), snap(x, depth + 1)) for x in o])
     if isinstance(o, (set, frozenset)):
         return ("set", sorted(repr(x) for x in o))
     if isinstance(o, pd.DataFrame):
@@ -73,6 +113,8 @@ def diff_where(a, b, path=""):
     """first place where two snapshots differ (for the report)"""
     if type(a) != type(b):
         return path + ": type"
+    if isinstance(a, tuple) and isinstance(b, tuple) and a[:1] == ("id",) and b[:1] == ("id",):
+        return path + ": element replaced by another object (identity changed)"
     if isinstance(a, tuple) and len(a) == 4 and a[0] == "nd" and isinstance(b, tuple) and len(b) == 4 and b[0] == "nd":
         if a[1:3] != b[1:3]:
             return path + ": array %s%s -> %s%s" % (a[1], a[2], b[1], b[2])
@@ -123,7 +165,13 @@ def same(a, b):
     if a[0] != b[0]:
         return False
     if a[0] == "arr":
-        return a[1].shape == b[1].shape and bool(np.allclose(a[1], b[1], rtol=RTOL, atol=ATOL, equal_nan=True))
+        if a[1].shape != b[1].shape:
+            return False
+        if a[1].size == 0:
+            return True
+        fin = np.abs(b[1][np.isfinite(b[1])])
+        scale = max(1.0, float(fin.max())) if fin.size else 1.0
+        return bool(np.allclose(a[1], b[1], rtol=0.0, atol=TOL * scale, equal_nan=True))
     if a[0] == "seq":
         return len(a[1]) == len(b[1]) and all(same(x, y) for x, y in zip(a[1], b[1]))
     return a == b
@@ -137,16 +185,28 @@ def brief(c):
     return str(c)[:80]
 
 
+def maxdiff(a, b):
+    if a[0] == "arr" and b[0] == "arr" and a[1].shape == b[1].shape and a[1].size:
+        with np.errstate(all="ignore"):
+            return " (max |diff| %.3g)" % float(np.nanmax(np.abs(a[1] - b[1])))
+    return ""
+
+
 # ------------------------------------------------------------------ scenarios
 class Scenario:
-    """params(): fresh constructor kwargs; fit_data(): fresh (X, kwargs); pool: list of factories of fresh (X, kwargs)
-    for transform; poison: optional factory of an input meant to make transform raise; seeded: takes random_state;
-    claim_seed: False for estimators documented as random without a seed."""
+    """params(): fresh constructor kwargs; fit_data(): fresh (X, kwargs); refit_data(): fresh (X, kwargs) of the same
+    shape and other contents; pool: factories of fresh (X, kwargs) for transform - pool[0] = A, pool[1] = B (same shape
+    as A, other contents), the rest in other containers / shapes; poison: factory of an input meant to make the call
+    raise; fault: how to make fit raise part-way; fault_tr: names of the per-block functions of the module LOT that a
+    transform calls (made to raise at the k-th call); no_alias: {constructor parameter: fitted attributes that are
+    documented to be copies}."""
     def __init__(self, cls, desc, params, fit_data, pool, poison=None, seeded=False, claim_seed=True,
-                 has_transform=True, fault=None, fit_transform_only=False, compare_attrs=True):
+                 has_transform=True, fault=None, fault_tr=None, fit_transform_only=False, compare_attrs=True,
+                 refit_data=None, use_ft=False, no_alias=None, tr_blocks=1):
         self.cls, self.desc, self.params, self.fit_data, self.pool = cls, desc, params, fit_data, pool
         self.poison, self.seeded, self.claim_seed, self.has_transform = poison, seeded, claim_seed, has_transform
-        self.fault, self.fit_transform_only, self.compare_attrs = fault, fit_transform_only, compare_attrs
+        self.fault, self.fault_tr, self.fit_transform_only, self.compare_attrs = fault, fault_tr, fit_transform_only, compare_attrs
+        self.refit_data, self.use_ft, self.no_alias, self.tr_blocks = refit_data, use_ft, no_alias or {}, tr_blocks
 
 
 def freeze(obj):
@@ -154,252 +214,550 @@ def freeze(obj):
     return lambda: copy.deepcopy(obj)
 
 
+def obj_array(items):
+    a = np.empty(len(items), dtype=object)
+    for i, x in enumerate(items):
+        a[i] = x
+    return a
+
+
+def cross(**dims):
+    """full cross product of the given dimensions, as a list of dicts (first dimension slowest)"""
+    out = [{}]
+    for k, vals in dims.items():
+        out = [dict(c, **{k: v}) for c in out for v in vals]
+    return out
+
+
+def rotate(cells, seed, **dims):
+    """add secondary dimensions: cell i gets vals[(i + offset) % len(vals)], offset from the seed; cells are repeated
+    (cyclically) until every value of every secondary dimension occurs"""
+    need = max([len(v) for v in dims.values()] + [len(cells)])
+    cells = [dict(cells[i % len(cells)]) for i in range(need)]
+    for j, (k, vals) in enumerate(sorted(dims.items())):
+        off = (seed * 7 + j * 3) % len(vals)
+        for i, c in enumerate(cells):
+            c[k] = vals[(i + i // len(vals) + off) % len(vals)]      # (the i // len term decorrelates it from the primary dimensions)
+    return cells
+
+
+OUTER = {"list": list, "tuple": tuple, "ndarray_obj": obj_array, "series": lambda x: pd.Series(list(x))}
+# inner containers of one sequence.  "mixed": the sequences of one data set rotate through list / tuple / object array
+# (the tokens stay Python str); "ndarray_str": every sequence is a numpy string array (tokens are np.str_: mixing them
+# with Python str is rejected by the library as heterogeneous token types, so this is a mode of its own)
+INNER_MIXED = [list, tuple, lambda d: obj_array(list(d))]
+INNER_MODES = ["mixed", "ndarray_str"]
 VOC = ["a", "b", "c", "d", "e", "f"]
 
 
-def docs(rng, n=None, voc=VOC, maxlen=9, minlen=0, extra=None):
-    n = n or rng.randint(3, 7)
-    v = list(voc) + ([extra] if extra else [])
-    return [[v[rng.randint(len(v))] for _ in range(rng.randint(minlen, maxlen + 1))] for _ in range(n)]
+def docs(rng, n, voc=VOC, maxlen=9, minlen=1):
+    return [[voc[rng.randint(len(voc))] for _ in range(rng.randint(minlen, maxlen + 1))] for _ in range(n)]
 
 
-def token_common(rng):
-    kw = {}
-    r = rng.rand()
-    if r < 0.35:
-        sub = [VOC[i] for i in rng.permutation(len(VOC))[: rng.randint(2, len(VOC) + 1)]]
-        kw["token_dictionary"] = {t: i for i, t in enumerate(sub)}
-    elif r < 0.5:
+def relabel(rng, D, voc=VOC):
+    """other tokens, same shape, same vocabulary size: the vocabulary is shifted cyclically by 1..len-1"""
+    s = int(rng.randint(1, len(voc)))
+    m = {t: voc[(i + s) % len(voc)] for i, t in enumerate(voc)}
+    return [[m.get(t, t) for t in d] for d in D]
+
+
+def revocab(D, old="a", new="q"):
+    """the same documents over a vocabulary of the same size with one member exchanged (for refits: a model that
+    keeps anything of the previous vocabulary shows)"""
+    return [[new if t == old else t for t in d] for d in D]
+
+
+def with_rare(D, tag="r"):
+    """every document gets one token that occurs nowhere else (pruned by min_occurrences=2, unknown to a dictionary)"""
+    return [list(d[: len(d) // 2]) + ["%s%d" % (tag, i)] + list(d[len(d) // 2:]) for i, d in enumerate(D)]
+
+
+def pack(D, outer, off=0, inner="mixed"):
+    """documents in the given outer container; inner containers as described at INNER_MODES"""
+    if inner == "ndarray_str":
+        items = [np.array(d, dtype=str) for d in D]
+    else:
+        items = [INNER_MIXED[(i + off) % len(INNER_MIXED)](d) for i, d in enumerate(D)]
+    return OUTER[outer](items)
+
+
+def token_prune(cell, kw, ignored_name="excluded_tokens"):
+    """pruning on/off: data driven (min_occurrences), a caller dictionary lacking tokens, a caller set of tokens"""
+    p = cell["prune"]
+    if p == "min_occ":
         kw["min_occurrences"] = 2
-    if rng.rand() < 0.5:
+    elif p == "dict":
+        kw["token_dictionary"] = {t: i for i, t in enumerate(["b", "a", "d", "c"])}          # e, f and the rare ones are unknown
+    elif p == "excluded":
+        kw[ignored_name] = {"c", "e"}
+    m = cell["mask"]
+    if m != "off":
         kw["mask_string"] = "[MASK]"
-        if rng.rand() < 0.4 and "token_dictionary" not in kw:
+        if m == "nullify":
             kw["nullify_mask"] = True
     return kw
 
 
-def sc_token(rng):
-    kw = token_common(rng)
-    kw.update(window_radii=int(rng.randint(1, 4)), kernel_functions=str(rng.choice(["flat", "harmonic", "geometric"])),
-              window_orientations=str(rng.choice(["before", "after", "directional"])),
-              normalize_windows=bool(rng.rand() < 0.5), n_iter=int(rng.choice([0, 0, 1])))
-    D = docs(rng, minlen=1)
-    pool = [freeze(docs(rng, minlen=1)), freeze(docs(rng, n=2, minlen=1, extra="zz")), freeze(D[:2])]
-    return Scenario(V.TokenCooccurrenceVectorizer, "TokenCooccurrenceVectorizer(%r)" % kw, freeze(kw), freeze((D, {})),
-                    [(lambda f=f: (f(), {})) for f in pool], poison=lambda: ([["a", "b"], ["a", 3.5, None]], {}))
+def token_cells(seed, nullify=True):
+    cells = cross(prune=["off", "min_occ", "dict", "excluded"], mask=["off", "on"], outer=list(OUTER))
+    if nullify:
+        cells += cross(prune=["min_occ", "off"], mask=["nullify"], outer=list(OUTER))
+    return rotate(cells, seed, use_ft=[False, True], pool_outer=list(OUTER), inner=INNER_MODES)
 
 
-def timed(rng, D):
-    out = []
-    for d in D:
-        t = np.cumsum(rng.rand(len(d)) + 0.1)
-        out.append([(tok, float(tt)) for tok, tt in zip(d, t)])
-    return out
+def token_like(cls, name, rng, cell, kw, conv=lambda D: D, minlen=2, poison=None, alias_attrs=("token_label_dictionary_",), plain=True):
+    """the scenario shared by the estimators that take sequences of tokens; conv turns token documents into the
+    estimator's items (timestamps, multisets)"""
+    n = int(rng.randint(4, 7))
+    base = docs(rng, n, minlen=minlen)
+    D = with_rare(base)
+    A = with_rare(docs(rng, 4, minlen=minlen), tag="zz")               # unknown tokens in every document
+    B = relabel(rng, A)                                                # same shape, other tokens, same vocabulary size
+    C = docs(rng, 2, minlen=minlen)
+    D2 = revocab(relabel(rng, D))
+    o, po = cell["outer"], cell["pool_outer"]
+    others = [x for x in OUTER if x != po]
+    # plain token documents can also be numpy string arrays; items with structure (timestamps, multisets) cannot
+    modes = [cell["inner"], INNER_MODES[1 - INNER_MODES.index(cell["inner"])]] if plain else ["mixed", "mixed"]
+    fitd = freeze((pack(conv(D), o, 0, modes[0]), {}))
+    pool = [freeze((pack(conv(A), po, 1, modes[1]), {})), freeze((pack(conv(B), po, 1, modes[1]), {})),
+            freeze((pack(conv(C), others[0], 2, modes[0]), {})), freeze((pack(conv(D[:3]), others[1], 3, modes[1]), {})),
+            freeze((pack(conv(A), others[2], 0, modes[0]), {}))]
+    no_alias = {"token_dictionary": list(alias_attrs)} if "token_dictionary" in kw else {}
+    if poison is None:                      # the last item is not a sequence at all: the call fails part-way
+        poison = lambda: (conv([["a", "b", "a"], ["b", "a", "a", "b"]]) + [7], {})
+    return Scenario(cls, "%s(%r) fit:%s/%s pool:%s/%s" % (name, kw, o, modes[0], po, modes[1]), freeze(kw), fitd, pool, poison=poison,
+                    refit_data=freeze((pack(conv(D2), o, 1, modes[0]), {})), use_ft=cell["use_ft"], no_alias=no_alias)
 
 
-def sc_timed(rng):
-    kw = token_common(rng)
-    kw.update(window_radii=float(rng.choice([0.5, 1.0, 2.0])), kernel_functions=str(rng.choice(["flat", "geometric"])),
-              window_orientations=str(rng.choice(["before", "after", "directional"])),
-              normalize_windows=bool(rng.rand() < 0.5))
-    D = timed(rng, docs(rng, minlen=2))
-    pool = [freeze(timed(rng, docs(rng, minlen=2))), freeze(timed(rng, docs(rng, n=2, minlen=2, extra="zz"))), freeze(D[:2])]
-    return Scenario(V.TimedTokenCooccurrenceVectorizer, "TimedTokenCooccurrenceVectorizer(%r)" % kw, freeze(kw),
-                    freeze((D, {})), [(lambda f=f: (f(), {})) for f in pool])
+def cells_token(seed):
+    return token_cells(seed)
 
 
-def sc_ngramcooc(rng):
-    kw = token_common(rng)
-    kw.pop("nullify_mask", None)
-    kw.update(ngram_size=int(rng.choice([1, 2])), window_radii=int(rng.randint(1, 3)),
-              window_orientations=str(rng.choice(["before", "after", "directional"])))
-    D = docs(rng, minlen=3)
-    pool = [freeze(docs(rng, minlen=3)), freeze(D[:2])]
-    return Scenario(V.NgramCooccurrenceVectorizer, "NgramCooccurrenceVectorizer(%r)" % kw, freeze(kw), freeze((D, {})),
-                    [(lambda f=f: (f(), {})) for f in pool])
+def sc_token(rng, cell, fx):
+    kw = token_prune(cell, {})
+    kw.update(window_radii=fx["radius"], kernel_functions=fx["kernel"], window_orientations=fx["orient"],
+              normalize_windows=fx["normalize"], n_iter=fx["n_iter"])
+    return token_like(V.TokenCooccurrenceVectorizer, "TokenCooccurrenceVectorizer", rng, cell, kw,
+                      poison=lambda: ([["a", "b"], ["a", 3.5, None]], {}))
 
 
-def multisets(rng, n=None, extra=None):
-    n = n or rng.randint(3, 6)
-    v = VOC + ([extra] if extra else [])
-    return [[[v[rng.randint(len(v))] for _ in range(rng.randint(1, 4))] for _ in range(rng.randint(2, 6))] for _ in range(n)]
+def fx_token(rng):
+    return {"radius": int(rng.randint(1, 4)), "kernel": str(rng.choice(["flat", "harmonic", "geometric"])),
+            "orient": str(rng.choice(["before", "after", "directional"])), "normalize": bool(rng.rand() < 0.5),
+            "n_iter": int(rng.choice([0, 0, 1]))}
 
 
-def sc_multiset(rng):
-    kw = token_common(rng)
-    kw.update(window_radii=int(rng.randint(1, 3)), kernel_functions=str(rng.choice(["flat", "geometric"])),
-              window_orientations=str(rng.choice(["before", "after", "directional"])),
-              normalize_windows=bool(rng.rand() < 0.5))
-    D = multisets(rng)
-    pool = [freeze(multisets(rng)), freeze(multisets(rng, n=2, extra="zz")), freeze(D[:2])]
-    return Scenario(V.MultiSetCooccurrenceVectorizer, "MultiSetCooccurrenceVectorizer(%r)" % kw, freeze(kw), freeze((D, {})),
-                    [(lambda f=f: (f(), {})) for f in pool])
+def timed_conv(rng):
+    def conv(D):
+        out = []
+        for d in D:
+            t = np.cumsum(rng.rand(len(d)) + 0.1)
+            out.append([(tok, float(tt)) for tok, tt in zip(d, t)])
+        return out
+    return conv
 
 
-def sc_skipgram(rng):
-    kw = token_common(rng)
-    kw.pop("nullify_mask", None)
-    kw.update(window_radius=int(rng.randint(1, 4)), kernel_function=str(rng.choice(["flat", "harmonic"])))
+def cells_timed(seed):
+    return token_cells(seed)
+
+
+def sc_timed(rng, cell, fx):
+    kw = token_prune(cell, {})
+    kw.update(window_radii=fx["radius"], kernel_functions=fx["kernel"], window_orientations=fx["orient"],
+              normalize_windows=fx["normalize"])
+    return token_like(V.TimedTokenCooccurrenceVectorizer, "TimedTokenCooccurrenceVectorizer", rng, cell, kw, conv=timed_conv(rng), plain=False)
+
+
+def fx_timed(rng):
+    return {"radius": float(rng.choice([0.5, 1.0, 2.0])), "kernel": str(rng.choice(["flat", "geometric"])),
+            "orient": str(rng.choice(["before", "after", "directional"])), "normalize": bool(rng.rand() < 0.5)}
+
+
+def cells_ngramcooc(seed):
+    return token_cells(seed, nullify=False)
+
+
+def sc_ngramcooc(rng, cell, fx):
+    kw = token_prune(cell, {})
+    kw.update(ngram_size=fx["ngram"], window_radii=fx["radius"], window_orientations=fx["orient"])
+    return token_like(V.NgramCooccurrenceVectorizer, "NgramCooccurrenceVectorizer", rng, cell, kw, minlen=3)
+
+
+def fx_ngramcooc(rng):
+    return {"ngram": int(rng.choice([1, 2])), "radius": int(rng.randint(1, 3)), "orient": str(rng.choice(["before", "after", "directional"]))}
+
+
+def multiset_conv(rng):
+    def conv(D):
+        # a document of multisets: consecutive tokens grouped in bags of 1-3
+        out = []
+        for d in D:
+            bags, i = [], 0
+            while i < len(d):
+                k = int(rng.randint(1, 4))
+                bags.append(list(d[i:i + k]))
+                i += k
+            out.append(bags)
+        return out
+    return conv
+
+
+def cells_multiset(seed):
+    return token_cells(seed)
+
+
+def sc_multiset(rng, cell, fx):
+    kw = token_prune(cell, {})
+    kw.update(window_radii=fx["radius"], kernel_functions=fx["kernel"], window_orientations=fx["orient"],
+              normalize_windows=fx["normalize"])
+    return token_like(V.MultiSetCooccurrenceVectorizer, "MultiSetCooccurrenceVectorizer", rng, cell, kw, conv=multiset_conv(rng), minlen=3, plain=False)
+
+
+def fx_multiset(rng):
+    return {"radius": int(rng.randint(1, 3)), "kernel": str(rng.choice(["flat", "geometric"])),
+            "orient": str(rng.choice(["before", "after", "directional"])), "normalize": bool(rng.rand() < 0.5)}
+
+
+def cells_skipgram(seed):
+    return token_cells(seed, nullify=False)
+
+
+def sc_skipgram(rng, cell, fx):
+    kw = token_prune(cell, {}, ignored_name="ignored_tokens")
     # (a non-empty kernel_args is unusable here: fit passes tuple(*self.kernel_args.values()) to the kernel - not C13's)
-    D = docs(rng, minlen=2)
-    pool = [freeze(docs(rng, minlen=2)), freeze(D[:3]), freeze(D)]
-    return Scenario(V.SkipgramVectorizer, "SkipgramVectorizer(%r)" % kw, freeze(kw), freeze((D, {})),
-                    [(lambda f=f: (f(), {})) for f in pool])
+    kw.update(window_radius=fx["radius"], kernel_function=fx["kernel"])
+    return token_like(V.SkipgramVectorizer, "SkipgramVectorizer", rng, cell, kw, minlen=2)
 
 
-def sc_ngram(rng):
-    kw = token_common(rng)
-    kw.pop("nullify_mask", None)
-    kw.update(ngram_size=int(rng.choice([1, 2, 3])), ngram_behaviour=str(rng.choice(["exact", "subgrams"])))
-    D = docs(rng, minlen=1)
-    pool = [freeze(docs(rng, minlen=1)), freeze(docs(rng, n=2, minlen=1, extra="zz")), freeze(D[:2])]
-    return Scenario(V.NgramVectorizer, "NgramVectorizer(%r)" % kw, freeze(kw), freeze((D, {})),
-                    [(lambda f=f: (f(), {})) for f in pool])
+def fx_skipgram(rng):
+    return {"radius": int(rng.randint(1, 4)), "kernel": str(rng.choice(["flat", "harmonic"]))}
 
 
-def trees(rng, n=None, extra=None):
-    n = n or rng.randint(1, 4)
-    v = VOC[:4] + ([extra] if extra else [])
+def cells_ngram(seed):
+    return token_cells(seed, nullify=False)
+
+
+def sc_ngram(rng, cell, fx):
+    kw = token_prune(cell, {})
+    kw.update(ngram_size=fx["ngram"], ngram_behaviour=fx["behaviour"])
+    return token_like(V.NgramVectorizer, "NgramVectorizer", rng, cell, kw, minlen=1,
+                      poison=lambda: ([["a", "b"], ["a", 3.5, None]], {}))
+
+
+def fx_ngram(rng):
+    return {"ngram": int(rng.choice([1, 2, 3])), "behaviour": str(rng.choice(["exact", "subgrams"]))}
+
+
+# ---- labelled trees
+ADJ = ["csr", "csc", "coo", "lil", "dok", "dia", "bsr"]
+LABELS = [lambda l: np.array(l, dtype=str), list, lambda l: obj_array(list(l)), tuple]
+
+
+def tree_shapes(rng, n):
+    """adjacency structure (dense 0/1, parent -> child) of n small random trees/forests"""
     out = []
     for _ in range(n):
-        m = rng.randint(1, 7)
-        A = np.zeros((m, m), dtype=np.int64)
+        m = int(rng.randint(3, 7))
+        A = np.zeros((m, m), dtype=np.float64)
         for c in range(1, m):
-            if rng.rand() < 0.85:
-                A[rng.randint(c), c] = 1
-        fmt = rng.choice(["csr", "csc", "coo", "lil"])
-        out.append((getattr(sp, fmt + "_matrix")(A), np.array([v[rng.randint(len(v))] for _ in range(m)])))
+            if rng.rand() < 0.9:
+                A[rng.randint(c), c] = 1.0
+        out.append(A)
     return out
 
 
-def sc_tree(rng):
+def tree_labels(rng, shapes, voc, rare=None):
+    out = []
+    for i, A in enumerate(shapes):
+        l = [voc[rng.randint(len(voc))] for _ in range(A.shape[0])]
+        if rare is not None:
+            l[int(rng.randint(1, len(l) - 1)) if len(l) > 2 else 0] = "%s%d" % (rare, i)     # an inner node: its removal rewires edges
+        out.append(l)
+    return out
+
+
+def pack_trees(shapes, labels, outer, off=0, pair=tuple):
+    items = []
+    for i, (A, l) in enumerate(zip(shapes, labels)):
+        adj = getattr(sp, ADJ[(i + off) % len(ADJ)] + "_matrix")(A)
+        items.append(pair((adj, LABELS[(i + off) % len(LABELS)](l))))
+    return {"list": list, "tuple": tuple, "ndarray_obj": obj_array}[outer](items)
+
+
+def cells_tree(seed):
+    cells = cross(prune=["off", "min_occ", "dict", "ignored"], mask=["off", "on"], outer=["list", "tuple", "ndarray_obj"])
+    return rotate(cells, seed, use_ft=[False, True], pair=["tuple", "list"], fmt_off=list(range(len(ADJ))))
+
+
+def sc_tree(rng, cell, fx):
     kw = {}
-    r = rng.rand()
-    if r < 0.3:
-        kw["token_dictionary"] = {t: i for i, t in enumerate(VOC[: rng.randint(2, 5)])}
-    elif r < 0.5:
-        kw["ignored_tokens"] = {VOC[rng.randint(4)]}
-    if rng.rand() < 0.5:
+    p = cell["prune"]
+    if p == "min_occ":
+        kw["min_occurrences"] = 2
+    elif p == "dict":
+        kw["token_dictionary"] = {t: i for i, t in enumerate(["b", "a", "c"])}
+    elif p == "ignored":
+        kw["ignored_tokens"] = {"c", "d"}
+    if cell["mask"] == "on":
         kw["mask_string"] = "[MASK]"
-    ka = {}
-    if rng.rand() < 0.4:
-        ka["offset"] = 1
-    kw.update(window_radius=int(rng.randint(1, 4)), kernel_function=str(rng.choice(["flat", "harmonic", "geometric"])),
-              window_orientation=str(rng.choice(["before", "after", "symmetric", "directional"])), kernel_args=ka)
-    D = trees(rng, n=rng.randint(2, 5))
-    pool = [freeze(trees(rng)), freeze(trees(rng, extra="zz")), freeze(D[:1])]
-    return Scenario(V.LabelledTreeCooccurrenceVectorizer, "LabelledTreeCooccurrenceVectorizer(%r)" % kw, freeze(kw),
-                    freeze((D, {})), [(lambda f=f: (f(), {})) for f in pool])
+    kw.update(window_radius=fx["radius"], kernel_function=fx["kernel"], window_orientation=fx["orient"], kernel_args=dict(fx["kargs"]))
+    voc = VOC[:4]
+    pair = {"tuple": tuple, "list": list}[cell["pair"]]
+    # every format occurs among the fitted trees (>= len(ADJ) trees), each tree with a label that occurs once
+    sh = tree_shapes(rng, len(ADJ))
+    lab = tree_labels(rng, sh, voc, rare="r")
+    shA = tree_shapes(rng, len(ADJ))
+    labA = tree_labels(rng, shA, voc, rare="zz")              # unknown labels at transform, in every tree
+    labB = relabel(rng, labA, voc)
+    shC = tree_shapes(rng, 2)
+    labC = tree_labels(rng, shC, voc)
+    o, f = cell["outer"], cell["fmt_off"]
+    fitd = freeze((pack_trees(sh, lab, o, f, pair), {}))
+    pool = [freeze((pack_trees(shA, labA, o, f + 1, pair), {})), freeze((pack_trees(shA, labB, o, f + 1, pair), {})),
+            freeze((pack_trees(shC, labC, "list", f + 2, pair), {})), freeze((pack_trees(sh[:3], lab[:3], "tuple", f + 3, pair), {}))]
+    no_alias = {"token_dictionary": ["token_label_dictionary_"]} if "token_dictionary" in kw else {}
+    return Scenario(V.LabelledTreeCooccurrenceVectorizer, "LabelledTreeCooccurrenceVectorizer(%r) outer:%s pair:%s fmt+%d" % (kw, o, cell["pair"], f),
+                    freeze(kw), fitd, pool, refit_data=freeze((pack_trees(sh, revocab(relabel(rng, lab, voc)), o, f + 4, pair), {})),
+                    use_ft=cell["use_ft"], no_alias=no_alias,
+                    poison=lambda: ([(sp.csr_matrix(np.eye(2, k=1)), np.array(["a", "b"])), (sp.csr_matrix(np.eye(3, k=1)), None)], {}))
+
+
+def fx_tree(rng):
+    return {"radius": int(rng.randint(1, 4)), "kernel": str(rng.choice(["flat", "harmonic", "geometric"])),
+            "orient": str(rng.choice(["before", "after", "symmetric", "directional"])), "kargs": {"offset": 1} if rng.rand() < 0.4 else {}}
+
+
+# ---- edge lists
+EDGE_CONT = {"list_tuples": lambda e: list(e), "list_lists": lambda e: [list(x) for x in e], "tuple_tuples": lambda e: tuple(e),
+             "df": lambda e: pd.DataFrame(list(e), columns=["r", "c", "v"]), "ndarray_obj": lambda e: np.array(list(e), dtype=object)}
 
 
 def edges(rng, rows, cols, n):
     return [(rows[rng.randint(len(rows))], cols[rng.randint(len(cols))], int(rng.randint(1, 5))) for _ in range(n)]
 
 
-def sc_edgelist(rng):
+def cells_edgelist(seed):
+    cells = [dict(c, cont=k) for c in [{"dicts": "none", "joint": False}, {"dicts": "row", "joint": False}, {"dicts": "col", "joint": False},
+                                       {"dicts": "both", "joint": False}, {"dicts": "none", "joint": True}, {"dicts": "row", "joint": True}]
+             for k in EDGE_CONT]
+    return rotate(cells, seed, use_ft=[False, True])
+
+
+def sc_edgelist(rng, cell, fx):
     rows, cols = ["r%d" % i for i in range(4)], ["c%d" % i for i in range(5)]
+    if cell["joint"]:
+        cols = rows + ["c0"]
     kw = {}
-    r = rng.rand()
-    if r < 0.3:
-        kw["row_label_dictionary"] = {t: i for i, t in enumerate(rows)}
-    elif r < 0.6:
-        kw["column_label_dictionary"] = {t: i for i, t in enumerate(cols)}
-    if not kw and rng.rand() < 0.3:
+    if cell["dicts"] in ("row", "both"):
+        kw["row_label_dictionary"] = {t: i for i, t in enumerate(rows[:3])}           # r3 unknown: pruned
+    if cell["dicts"] in ("col", "both"):
+        kw["column_label_dictionary"] = {t: i for i, t in enumerate(cols[:4])}
+    if cell["joint"]:
         kw["joint_space"] = True
-    D = edges(rng, rows, cols, rng.randint(5, 15))
-    as_df = rng.rand() < 0.3
-    conv = (lambda e: pd.DataFrame(e, columns=["r", "c", "v"])) if as_df else (lambda e: e)
-    pool = [freeze(conv(edges(rng, rows, cols, rng.randint(3, 10)))), freeze(conv(D[:4])), freeze(conv(D))]
-    return Scenario(V.EdgeListVectorizer, "EdgeListVectorizer(%r, df=%s)" % (kw, as_df), freeze(kw), freeze((conv(D), {})),
-                    [(lambda f=f: (f(), {})) for f in pool])
+    names = list(EDGE_CONT)
+    c0 = names.index(cell["cont"])
+    cont = lambda j: EDGE_CONT[names[(c0 + j) % len(names)]]
+    D = edges(rng, rows, cols, int(rng.randint(8, 15)))
+    A = edges(rng, rows + ["zz"], cols, 7)
+    perm_r = {r: rows[(i + 1) % len(rows)] for i, r in enumerate(rows)}
+    B = [(perm_r.get(r, r), c, v) for r, c, v in A]
+    pool = [freeze((cont(1)(A), {})), freeze((cont(1)(B), {})), freeze((cont(2)(D[:4]), {})), freeze((cont(3)(A), {})), freeze((cont(4)(D), {}))]
+    D2 = [("q0" if perm_r.get(r, r) == "r0" else perm_r.get(r, r), "q1" if c == "c1" else c, int(v) + 1) for r, c, v in D]   # other labels too
+    no_alias = {}
+    return Scenario(V.EdgeListVectorizer, "EdgeListVectorizer(%r) cont:%s" % (kw, cell["cont"]), freeze(kw), freeze((cont(0)(D), {})),
+                    pool, refit_data=freeze((cont(0)(D2), {})), use_ft=cell["use_ft"], no_alias=no_alias,
+                    poison=lambda: ([("r0", "c0", 1), ("r1",)], {}))
 
 
-def points(rng, n=None, dim=2):
-    n = n or rng.randint(4, 7)
-    return [rng.normal(loc=rng.normal(size=dim), size=(rng.randint(8, 20), dim)) for _ in range(n)]
+# ---- distributions, histograms, KDE
+def points(rng, n, dim=2, size=None):
+    return [rng.normal(loc=rng.normal(size=dim), size=(size or rng.randint(8, 16), dim)) for _ in range(n)]
 
 
-def sc_distribution(rng):
-    kw = {"n_components": int(rng.randint(2, 5)), "random_state": int(rng.randint(1000))}
-    D = points(rng)
-    pool = [freeze(points(rng, n=3)), freeze(D[:2])]
-    return Scenario(V.DistributionVectorizer, "DistributionVectorizer(%r)" % kw, freeze(kw), freeze((D, {})),
-                    [(lambda f=f: (f(), {})) for f in pool], seeded=True)
+DIST_CONT = {"list_arr": lambda v: list(v), "tuple_arr": lambda v: tuple(v), "nd3": lambda v: np.array(list(v)),
+             "f32": lambda v: [x.astype(np.float32) for x in v], "forder": lambda v: [np.asfortranarray(x) for x in v]}
 
 
-def values(rng, n=None, series=False):
-    n = n or rng.randint(3, 7)
-    out = [rng.poisson(rng.choice([2.0, 5.0, 9.0]), size=rng.randint(5, 30)).astype(rng.choice([np.int64, np.float64])) for _ in range(n)]
-    return [pd.Series(x) for x in out] if series else out
+def cells_distribution(seed):
+    return rotate([{}], seed, cont=list(DIST_CONT), use_ft=[False, True])
 
 
-def sc_histogram(rng):
-    kw = {"n_components": int(rng.randint(3, 10)), "strategy": str(rng.choice(["uniform", "quantile"])),
-          "append_outlier_bins": bool(rng.rand() < 0.5)}
-    ser = False       # (a list of pd.Series makes fit raise "truth value of a Series is ambiguous" - not C13's)
-    D = values(rng, series=ser)
-    pool = [freeze(values(rng, n=3, series=ser)), freeze(D[:2])]
-    return Scenario(V.HistogramVectorizer, "HistogramVectorizer(%r, series=%s)" % (kw, ser), freeze(kw), freeze((D, {})),
-                    [(lambda f=f: (f(), {})) for f in pool])
+def sc_distribution(rng, cell, fx):
+    kw = {"n_components": fx["k"], "random_state": fx["rs"]}
+    names = list(DIST_CONT)
+    c0 = names.index(cell["cont"])
+    cont = lambda j: DIST_CONT[names[(c0 + j) % len(names)]]
+    D, A = points(rng, 5, size=10), points(rng, 3, size=9)
+    B = [a[::-1] * 0.5 + 0.25 for a in A]
+    pool = [freeze((cont(1)(A), {})), freeze((cont(1)(B), {})), freeze((cont(2)(D[:2]), {})), freeze((cont(3)(A), {})), freeze((cont(4)(B), {}))]
+    return Scenario(V.DistributionVectorizer, "DistributionVectorizer(%r) cont:%s" % (kw, cell["cont"]), freeze(kw), freeze((cont(0)(D), {})), pool,
+                    seeded=True, refit_data=freeze((cont(0)([d * 1.5 - 0.5 for d in D]), {})), use_ft=cell["use_ft"],
+                    poison=lambda: ([np.zeros((3, 2)), "nope"], {}))
 
 
-def sc_kde(rng):
-    kw = {"n_components": int(rng.randint(3, 10)), "kernel": str(rng.choice(["gaussian", "tophat"]))}
-    if rng.rand() < 0.5:
-        kw["bandwidth"] = float(rng.choice([0.5, 1.0]))
-    D = values(rng)
-    pool = [freeze(values(rng, n=3)), freeze(D[:2])]
-    return Scenario(V.KDEVectorizer, "KDEVectorizer(%r)" % kw, freeze(kw), freeze((D, {})),
-                    [(lambda f=f: (f(), {})) for f in pool])
+def fx_distribution(rng):
+    return {"k": int(rng.randint(2, 5)), "rs": int(rng.randint(1000))}
 
 
-def strings(rng, n=None):
-    n = n or rng.randint(3, 7)
+def values(rng, n, size=None):
+    return [rng.poisson(rng.choice([2.0, 5.0, 9.0]), size=size or rng.randint(6, 20)).astype(np.float64) for _ in range(n)]
+
+
+HIST_CONT = {"list_arr": lambda v: list(v), "tuple_arr": lambda v: tuple(v), "list_list": lambda v: [x.tolist() for x in v],
+             "list_tuple": lambda v: [tuple(x.tolist()) for x in v], "nd2": lambda v: np.array(list(v)),
+             "series": lambda v: pd.Series([x.tolist() for x in v]), "ndarray_obj": lambda v: obj_array(list(v)),
+             "list_int": lambda v: [x.astype(np.int64) for x in v]}
+# (a list of pd.Series makes HistogramVectorizer.fit raise "truth value of a Series is ambiguous" - not C13's)
+KDE_CONT = {k: HIST_CONT[k] for k in ("list_arr", "tuple_arr", "nd2", "ndarray_obj", "list_int")}
+
+
+def value_like(cls, name, kw, rng, cell, conts):
+    names = list(conts)
+    c0 = names.index(cell["cont"])
+    cont = lambda j: conts[names[(c0 + j) % len(names)]]
+    D, A = values(rng, 5, size=12), values(rng, 3, size=10)       # equal lengths: valid in every container (2-d arrays too)
+    B = [a[::-1].copy() + 1.0 for a in A]
+    pool = [freeze((cont(1)(A), {})), freeze((cont(1)(B), {})), freeze((cont(2)(D[:2]), {})), freeze((cont(3)(A), {})), freeze((cont(4)(B), {}))]
+    return Scenario(cls, "%s(%r) cont:%s" % (name, kw, cell["cont"]), freeze(kw), freeze((cont(0)(D), {})), pool,
+                    refit_data=freeze((cont(0)([d[::-1].copy() + 2.0 for d in D]), {})), use_ft=cell["use_ft"],
+                    poison=lambda: ([np.arange(4.0), "nope"], {}))
+
+
+def cells_histogram(seed):
+    return rotate(cross(outlier=[False, True], cont=list(HIST_CONT)), seed, use_ft=[False, True])
+
+
+def sc_histogram(rng, cell, fx):
+    kw = {"n_components": fx["k"], "strategy": fx["strategy"], "append_outlier_bins": cell["outlier"]}
+    return value_like(V.HistogramVectorizer, "HistogramVectorizer", kw, rng, cell, HIST_CONT)
+
+
+def fx_histogram(rng):
+    return {"k": int(rng.randint(3, 10)), "strategy": str(rng.choice(["uniform", "quantile"]))}
+
+
+def cells_kde(seed):
+    return rotate(cross(bandwidth=[None, 0.5]), seed, cont=list(KDE_CONT), use_ft=[False, True])
+
+
+def sc_kde(rng, cell, fx):
+    kw = {"n_components": fx["k"], "kernel": fx["kernel"]}
+    if cell["bandwidth"]:
+        kw["bandwidth"] = cell["bandwidth"]
+    return value_like(V.KDEVectorizer, "KDEVectorizer", kw, rng, cell, KDE_CONT)
+
+
+def fx_kde(rng):
+    return {"k": int(rng.randint(3, 10)), "kernel": str(rng.choice(["gaussian", "tophat"]))}
+
+
+# ---- strings
+def strings(rng, n):
     al = "abcab "
-    return ["".join(al[rng.randint(len(al))] for _ in range(rng.randint(2, 25))) for _ in range(n)]
+    return ["".join(al[rng.randint(len(al))] for _ in range(rng.randint(4, 25))) for _ in range(n)]
 
 
-def sc_lz(rng):
+STR_CONT = {"list": lambda s: list(s), "tuple": lambda s: tuple(s), "ndarray_obj": lambda s: obj_array(list(s)),
+            "series": lambda s: pd.Series(list(s)), "generator": lambda s: GenOf(list(s))}
+
+
+def string_like(cls, name, kw, rng, cell, conts, mk, seeded=False):
+    names = list(conts)
+    c0 = names.index(cell["cont"])
+    cont = lambda j: conts[names[(c0 + j) % len(names)]]
+    D, A = mk(5), mk(3)
+    tr = str.maketrans("abc", "bca")
+    B = [a.translate(tr) for a in A]
+    pool = [freeze((cont(1)(A), {})), freeze((cont(1)(B), {})), freeze((cont(2)(D[:2]), {})), freeze((cont(3)(D[::-1]), {})), freeze((cont(4)(A), {}))]
+    return Scenario(cls, "%s(%r) cont:%s" % (name, kw, cell["cont"]), freeze(kw), freeze((cont(0)(D), {})), pool, seeded=seeded,
+                    refit_data=freeze((cont(0)([d.translate(tr).replace("a", "q") for d in D]), {})), use_ft=cell["use_ft"],
+                    poison=lambda: (["abcabc", 17], {}))
+
+
+def cells_lz(seed):
+    cells = [{"cols": None, "dsize": None, "based": False}, {"cols": 8, "dsize": None, "based": False},
+             {"cols": None, "dsize": 4, "based": False}, {"cols": None, "dsize": None, "based": True}, {"cols": 32, "dsize": 16, "based": True}]
+    return rotate(cells, seed, cont=list(STR_CONT), use_ft=[False, True])
+
+
+def sc_lz(rng, cell, fx):
     # the hash of the (default) hashed mode is drawn from random_state: without an integer seed the fit is random
     # by documentation, so every scenario passes one
-    kw = {"random_state": int(rng.randint(1000))}
-    if rng.rand() < 0.4:
-        kw.update(max_columns=int(rng.choice([8, 32])))
-    if rng.rand() < 0.3:
-        kw["max_dict_size"] = int(rng.choice([4, 16]))
-    if rng.rand() < 0.3:
+    kw = {"random_state": fx["rs"]}
+    if cell["cols"]:
+        kw["max_columns"] = cell["cols"]
+    if cell["dsize"]:
+        kw["max_dict_size"] = cell["dsize"]
+    if cell["based"]:
         kw["base_dictionary"] = {1: 1, 7: 1}                             # a caller-owned dictionary parameter
-    D = strings(rng)
-    pool = [freeze(strings(rng, n=3)), freeze(D[:2]), freeze(D[::-1])]
-    return Scenario(V.LZCompressionVectorizer, "LZCompressionVectorizer(%r)" % kw, freeze(kw), freeze((D, {})),
-                    [(lambda f=f: (f(), {})) for f in pool], seeded=True)
+    return string_like(V.LZCompressionVectorizer, "LZCompressionVectorizer", kw, rng, cell, STR_CONT, lambda n: strings(rng, n), seeded=True)
 
 
-def sc_bpe(rng):
-    # NOT OWNED (D14): contract_pair copies the tail of a string with a loop variable that may be unset; strings that
-    # contract to very few codes pick up uninitialised memory as a "code" (seen: column label 94170064223248), which
-    # makes two fits differ.  Scenarios therefore use strings of >= 8 characters and few merges.
-    kw = {"max_vocab_size": int(rng.choice([3, 5, 8])), "return_type": str(rng.choice(["matrix", "sequences", "tokens"]))}
-    mk = lambda n=None: [x + "abcab ab" for x in strings(rng, n)]
-    D = mk()
-    pool = [freeze(mk(3)), freeze(D[:2]), freeze(D[::-1])]
-    return Scenario(V.BytePairEncodingVectorizer, "BytePairEncodingVectorizer(%r)" % kw, freeze(kw), freeze((D, {})),
-                    [(lambda f=f: (f(), {})) for f in pool])
+def fx_lz(rng):
+    return {"rs": int(rng.randint(1000))}
+
+
+def cells_bpe(seed):
+    return rotate(cross(ret=["matrix", "sequences", "tokens"], vocab=[3, 8], cont=["list", "tuple"]), seed, use_ft=[False, True])
+
+
+def sc_bpe(rng, cell, fx):
+    # NOT OWNED (D14): contract_pair copied the tail of a string with a loop variable that may be unset; scenarios keep
+    # using strings of >= 8 characters and few merges.
+    kw = {"max_vocab_size": cell["vocab"], "return_type": cell["ret"]}
+    conts = {k: STR_CONT[k] for k in ("list", "tuple")}
+    return string_like(V.BytePairEncodingVectorizer, "BytePairEncodingVectorizer", kw, rng, cell, conts,
+                       lambda n: [x + "abcab ab" for x in strings(rng, n)])
+
+
+# ---- sparse matrix formats (shared by the optimal transport family and the transformers)
+SPARSE = ["csr", "csc", "coo", "lil", "dok", "dia", "bsr", "csr_unsorted", "csc_unsorted", "csr_zeros", "csc_zeros"]
+
+
+def mat_fmt(M, fmt):
+    """the dense matrix M in the given format; *_unsorted: the entries of every row (column) in reverse order;
+    *_zeros: with an explicitly stored zero at a position where M is zero"""
+    if fmt == "ndarray":
+        return np.array(M, copy=True)
+    base, _, var = fmt.partition("_")
+    if var == "zeros":
+        r, c = np.nonzero(M)
+        zr, zc = np.nonzero(M == 0)
+        d = M[r, c]
+        if len(zr):
+            r, c, d = np.append(r, zr[0]), np.append(c, zc[0]), np.append(d, 0.0)
+        A = getattr(sp, base + "_matrix")((d, (r, c)), shape=M.shape)
+        return A
+    A = getattr(sp, base + "_matrix")(M)
+    if var == "unsorted":
+        for i in range(len(A.indptr) - 1):
+            lo, hi = A.indptr[i], A.indptr[i + 1]
+            if hi - lo >= 2:
+                A.indices[lo:hi] = A.indices[lo:hi][::-1].copy()
+                A.data[lo:hi] = A.data[lo:hi][::-1].copy()
+        A.has_sorted_indices = False
+    return A
+
+
+class Boom(RuntimeError):
+    pass
 
 
 # ---- optimal transport family
-def ot_matrix(rng, n_rows, n_cols, fmt="csr", zero_row=False):
+OT_FMT = SPARSE + ["ndarray"]
+VEC = {"f64": lambda v: np.array(v, dtype=np.float64), "forder": lambda v: np.asfortranarray(v), "df": lambda v: pd.DataFrame(np.array(v))}
+VEC_FIT = dict(VEC, list=lambda v: np.array(v).tolist())          # transform reads vectors.shape: no list there
+
+
+def ot_dense(rng, n_rows, n_cols, zero_row=False):
     M = rng.rand(n_rows, n_cols) * (rng.rand(n_rows, n_cols) < 0.5)
     for i in range(n_rows):
         if M[i].sum() == 0:
             M[i, rng.randint(n_cols)] = 1.0
     if zero_row:
         M[n_rows - 1] = 0
-    return getattr(sp, fmt + "_matrix")(M)
-
-
-class Boom(RuntimeError):
-    pass
+    return M
 
 
 def ot_components(rng, metric, method, ref, dim):
@@ -410,207 +768,344 @@ def ot_components(rng, metric, method, ref, dim):
     return int(rng.randint(2, min(3, eff) + 1)) if eff >= 2 else 1
 
 
-def sc_wasserstein(rng):
-    n_cols, dim = int(rng.randint(5, 9)), int(rng.randint(2, 4))
-    im = str(rng.choice(["spmatrix", "lil", "generator"], p=[0.5, 0.35, 0.15]))
-    method = "LOT_exact"
-    if im == "spmatrix":
-        method = str(rng.choice(["LOT_exact", "LOT_sinkhorn", "HeuristicLinearAlgebra"], p=[0.6, 0.25, 0.15]))
-    ref = int(rng.randint(2, 5))
-    metric = str(rng.choice(["cosine", "euclidean"]))
+def rot(names, start, j):
+    return names[(names.index(start) + j) % len(names)]
+
+
+def ot_sparse_data(rng, cell, n_cols, dim, n_rows, with_vec_kw=True, zero_row=False):
+    """fit data, pool, refit data, poison for the estimators that take (matrix, vectors=...)"""
+    fmt = lambda j: rot(OT_FMT, cell["fmt"], j)
+    vec = lambda j: VEC[rot(list(VEC), cell["vec"] if cell["vec"] in VEC else "f64", j)]
+    V1, V2, V3 = rng.normal(size=(n_cols, dim)), rng.normal(size=(n_cols, dim)), rng.normal(size=(n_cols, dim))
+    X = ot_dense(rng, n_rows, n_cols, zero_row=zero_row)
+    X2 = ot_dense(rng, n_rows, n_cols)
+    na = int(rng.randint(6, 10))
+    XA, XB, XC = ot_dense(rng, na, n_cols), ot_dense(rng, na, n_cols), ot_dense(rng, int(rng.randint(2, 5)), n_cols)
+    kwv = (lambda v: {"vectors": v}) if with_vec_kw else (lambda v: {})
+    fitd = freeze((mat_fmt(X, fmt(0)), {"vectors": VEC_FIT[cell["vec"]](V1)}))
+    pool = [freeze((mat_fmt(XA, fmt(1)), kwv(vec(0)(V1)))), freeze((mat_fmt(XB, fmt(1)), kwv(vec(0)(V2)))),
+            freeze((mat_fmt(XA, fmt(2)), kwv(vec(1)(V2)))), freeze((mat_fmt(XC, fmt(3)), kwv(vec(2)(V1)))),
+            freeze((mat_fmt(XB, fmt(4)), kwv(vec(1)(V1)))), freeze((mat_fmt(XA, fmt(5)), kwv(vec(2)(V3))))]
+    refit = freeze((mat_fmt(X2, fmt(6)), {"vectors": VEC_FIT[cell["vec"]](V3)}))
+    poison = lambda: (mat_fmt(ot_dense(rng, 3, n_cols + 1), "csr"), kwv(np.array(V1)))
+    return fitd, pool, refit, poison
+
+
+def ot_lil(rng, nr, dim, sizes=None):
+    d, v = [], []
+    for i in range(nr):
+        k = int(sizes[i]) if sizes is not None else int(rng.randint(2, 6))
+        d.append(rng.rand(k) * 3 + 0.05)
+        v.append(rng.normal(size=(k, dim)))
+    return d, v
+
+
+LIL_X = {"list": list, "tuple": tuple, "typedlist": lambda d: numba.typed.List(d)}
+LIL_V = {"list": list, "tuple": tuple}
+
+
+def cells_wasserstein(seed):
+    cells = cross(path=["spmatrix/LOT_exact", "spmatrix/LOT_sinkhorn", "spmatrix/HeuristicLinearAlgebra", "lil/LOT_exact", "generator/LOT_exact"],
+                  memory=["small", "2G"], cachedir=[None, "CACHEDIR"], metric=["cosine", "euclidean"])
+    return rotate(cells, seed, fmt=OT_FMT, vec=list(VEC_FIT), ref=["default", "given"],
+                  use_ft=[False, True], fault=["svd", "internal", "badref"], lilx=list(LIL_X), lilv=list(LIL_V))
+
+
+def sc_wasserstein(rng, cell, fx):
+    im, method = cell["path"].split("/")
+    n_cols, dim, ref, metric = 6, int(rng.randint(2, 4)), 3, cell["metric"]
+    n_rows = int(rng.randint(14, 20))
+    # one row of LOT coordinates takes ref * dim * 8 bytes: "small" gives blocks of 3-4 rows, i.e. several blocks in
+    # fit and in every transform (a size below one row divides by zero in transform: not C13's)
+    mem = str(ref * dim * 8 * 4 - 8) if cell["memory"] == "small" else "2G"
+    block = (ref * dim * 8 * 4 - 8) // (ref * dim * 8) if cell["memory"] == "small" else 10 ** 9
     kw = {"input_method": im, "method": method, "n_components": ot_components(rng, metric, method, ref, dim),
-          "random_state": int(rng.randint(1000)), "metric": metric,
-          # small memory sizes force the blockwise paths (a size below one LOT vector divides by zero in transform:
-          # not C13's, and it would only make every call of the history raise)
-          "memory_size": str(rng.choice(["400", "400", "800", "1k", "2G"]))}
+          "random_state": int(rng.randint(1000)), "metric": metric, "memory_size": mem}
     if method != "HeuristicLinearAlgebra":
         kw["reference_size"] = ref
-    cachedir = None
-    if rng.rand() < 0.5:
-        cachedir = "CACHEDIR"                  # replaced by a private directory by the runner
-        kw["cachedir"] = cachedir
-    n_rows = int(rng.randint(8, 20))
-    vecs = rng.normal(size=(n_cols, dim))
+    if cell["cachedir"]:
+        kw["cachedir"] = "CACHEDIR"                  # replaced by a private directory by the runner
+    given = cell["ref"] == "given" and method != "HeuristicLinearAlgebra"
+    refkw = lambda: {"reference_vectors": rng.normal(size=(ref, dim)), "reference_distribution": np.full(ref, 1.0 / ref)}
+    internal = {"LOT_exact": "lot_vectors_sparse_internal", "LOT_sinkhorn": "sinkhorn_vectors_sparse_internal"}.get(method) if im == "spmatrix" \
+        else "lot_vectors_dense_internal"
+    fault = None
+    nb_fit = n_rows // block + 1
+    if method != "HeuristicLinearAlgebra":
+        kind = cell["fault"]
+        if kind == "badref" and im == "generator":
+            kind = "gen"
+        fault = {"svd": ("svd", int(rng.randint(1, min(nb_fit, 3) + 1))),
+                 "internal": ("internal:" + internal, int(rng.randint(1, min(nb_fit, 3) + 1))),
+                 "badref": ("badref", 0), "gen": ("gen", int(rng.randint(1, n_rows)))}[kind]
+    desc = "WassersteinVectorizer(%r) rows=%d X:%s vectors:%s ref:%s" % (kw, n_rows, cell["fmt"] if im == "spmatrix" else cell["lilx"],
+                                                                             cell["vec"] if im == "spmatrix" else cell["lilv"], "given" if given else "default")
     if im == "spmatrix":
-        fmt = str(rng.choice(["csr", "csc", "coo"]))
-        X = ot_matrix(rng, n_rows, n_cols, fmt, zero_row=(method == "LOT_exact" and rng.rand() < 0.2))
-        fitd = freeze((X, {"vectors": vecs}))
-        pool = [freeze((ot_matrix(rng, int(rng.randint(2, 8)), n_cols, "csr"), {"vectors": vecs})),
-                freeze((X[:3].tocsr() if fmt != "coo" else X.tocsr()[:3], {"vectors": vecs})),
-                freeze((ot_matrix(rng, 5, n_cols, "csc"), {"vectors": vecs}))]
-        fault = ("svd", int(rng.choice([1, 1, 2, 2, 3])))
-    else:
-        def lil(nr):
-            d, v = [], []
-            for _ in range(nr):
-                k = int(rng.randint(2, 6))
-                d.append(rng.rand(k) * 3 + 0.05)
-                v.append(rng.normal(size=(k, dim)))
-            return d, v
-        d, v = lil(n_rows)
-        if im == "lil":
-            fitd = freeze((d, {"vectors": v}))
-            mk = lambda dv: freeze((dv[0], {"vectors": dv[1]}))
-            pool = [mk(lil(int(rng.randint(2, 7)))), mk((d[:3], v[:3])), mk(lil(4))]
-            fault = ("svd", int(rng.choice([1, 1, 2, 2, 3]))) if rng.rand() < 0.6 else ("badref", 0)
-        else:
-            kw["generator_vector_dim"] = dim
-            kw["generator_n_distributions"] = n_rows
-            rv, rd = rng.normal(size=(ref, dim)), np.full(ref, 1.0 / ref)
-            gen = lambda seq: (x for x in copy.deepcopy(seq))
-            fitd = lambda: (gen(d), {"vectors": gen(v), "reference_vectors": rv.copy(), "reference_distribution": rd.copy()})
-            pool = [lambda: (gen(d), {"vectors": gen(v)})]
-            fault = ("gen", int(rng.randint(1, n_rows)))
-            kw.pop("reference_size", None)
-            return Scenario(V.WassersteinVectorizer, "WassersteinVectorizer(%r) rows=%d" % (kw, n_rows), freeze(kw), fitd, pool,
-                            seeded=True, fault=fault)
-    return Scenario(V.WassersteinVectorizer, "WassersteinVectorizer(%r) rows=%d" % (kw, n_rows), freeze(kw), fitd, pool,
-                    seeded=True, fault=fault)
+        fitd0, pool, refit0, poison = ot_sparse_data(rng, cell, n_cols, dim, n_rows, zero_row=False)
+        extra = refkw() if given else {}
+        extra2 = refkw() if given else {}
+        fitd = lambda: (lambda Xk: (Xk[0], dict(Xk[1], **copy.deepcopy(extra))))(fitd0())
+        refit = lambda: (lambda Xk: (Xk[0], dict(Xk[1], **copy.deepcopy(extra2))))(refit0())
+        return Scenario(V.WassersteinVectorizer, desc, freeze(kw), fitd, pool, poison=poison, seeded=True, fault=fault,
+                        fault_tr=internal, refit_data=refit, use_ft=cell["use_ft"], tr_blocks=2 if cell["memory"] == "small" else 1)
+    sizes = rng.randint(2, 6, size=n_rows)
+    d, v = ot_lil(rng, n_rows, dim, sizes)
+    d2, v2 = ot_lil(rng, n_rows, dim, sizes)
+    if im == "lil":
+        cx, cv = LIL_X[cell["lilx"]], LIL_V[cell["lilv"]]
+        na = int(rng.randint(6, 10))
+        sa = rng.randint(2, 6, size=na)
+        (dA, vA), (dB, vB), (dC, vC) = ot_lil(rng, na, dim, sa), ot_lil(rng, na, dim, sa), ot_lil(rng, 3, dim)
+        extra = refkw() if given else {}
+        # (containers are built inside the factories: a numba typed List is not made to be deep-copied)
+        mk = lambda dd, vv, x=cx, y=cv, e={}: (lambda: (x(copy.deepcopy(dd)), dict({"vectors": y(copy.deepcopy(vv))}, **copy.deepcopy(e))))
+        pool = [mk(dA, vA), mk(dB, vB), mk(dA, vB), mk(dC, vC, list, tuple), mk(dB, vA, tuple, list), mk(d[:4], v[:4])]
+        fitd = mk(d, v, e=extra)
+        refit = mk(d2, v2, e=extra)
+        return Scenario(V.WassersteinVectorizer, desc, freeze(kw), fitd, pool, seeded=True, fault=fault, fault_tr=internal,
+                        poison=lambda: ([np.ones(2), "nope"], {"vectors": [np.zeros((2, dim)), np.zeros((2, dim))]}),
+                        refit_data=refit, use_ft=cell["use_ft"], tr_blocks=2 if cell["memory"] == "small" else 1)
+    kw["generator_vector_dim"] = dim
+    kw["generator_n_distributions"] = n_rows
+    kw.pop("reference_size", None)
+    extra = refkw()
+    (dB, vB), (dC, vC) = ot_lil(rng, n_rows, dim, sizes), ot_lil(rng, n_rows, dim)
+    g = lambda dd, vv: freeze((GenOf(dd), {"vectors": GenOf(vv)}))
+    fitd = freeze((GenOf(d), dict({"vectors": GenOf(v)}, **extra)))
+    refit = freeze((GenOf(d2), dict({"vectors": GenOf(v2)}, **extra)))
+    pool = [g(d, v), g(dB, vB), g(d, vB), g(dC, vC)]
+    desc = "WassersteinVectorizer(%r) rows=%d generators" % (kw, n_rows)
+    return Scenario(V.WassersteinVectorizer, desc, freeze(kw), fitd, pool, seeded=True, fault=fault, fault_tr=internal,
+                    refit_data=refit, use_ft=cell["use_ft"], tr_blocks=2 if cell["memory"] == "small" else 1)
 
 
-def sc_sinkhorn(rng):
-    n_cols, dim = int(rng.randint(5, 9)), int(rng.randint(2, 4))
-    ref, metric = int(rng.randint(2, 5)), str(rng.choice(["cosine", "euclidean"]))
+def cells_sinkhorn(seed):
+    cells = cross(memory=["small", "2G"], cachedir=[None, "CACHEDIR"], metric=["cosine", "euclidean"])
+    return rotate(cells, seed, fmt=OT_FMT, vec=list(VEC_FIT), use_ft=[False, True], fault=["svd", "internal"])
+
+
+def sc_sinkhorn(rng, cell, fx):
+    n_cols, dim, ref, metric = 6, int(rng.randint(2, 4)), 3, cell["metric"]
+    n_rows = int(rng.randint(12, 18))
+    mem = str(ref * dim * 8 * 4 - 8) if cell["memory"] == "small" else "2G"
     kw = {"n_components": ot_components(rng, metric, "LOT_sinkhorn", ref, dim), "random_state": int(rng.randint(1000)),
-          "reference_size": ref, "metric": metric, "memory_size": str(rng.choice(["400", "1k", "2G"]))}
-    if rng.rand() < 0.5:
+          "reference_size": ref, "metric": metric, "memory_size": mem}
+    if cell["cachedir"]:
         kw["cachedir"] = "CACHEDIR"
-    vecs = rng.normal(size=(n_cols, dim))
-    X = ot_matrix(rng, int(rng.randint(6, 14)), n_cols, str(rng.choice(["csr", "csc"])))
-    pool = [freeze((ot_matrix(rng, 4, n_cols), {"vectors": vecs})), freeze((X[:3], {"vectors": vecs}))]
-    return Scenario(V.SinkhornVectorizer, "SinkhornVectorizer(%r)" % kw, freeze(kw), freeze((X, {"vectors": vecs})), pool,
-                    seeded=True, fault=("svd", int(rng.randint(1, 4))))
+    fitd, pool, refit, poison = ot_sparse_data(rng, cell, n_cols, dim, n_rows)
+    k = int(rng.randint(1, 4 if cell["memory"] == "small" else 2))
+    fault = ("svd", k) if cell["fault"] == "svd" else ("internal:sinkhorn_vectors_sparse_internal", k)
+    return Scenario(V.SinkhornVectorizer, "SinkhornVectorizer(%r) rows=%d X:%s vectors:%s" % (kw, n_rows, cell["fmt"], cell["vec"]), freeze(kw),
+                    fitd, pool, poison=poison, seeded=True, fault=fault, fault_tr="sinkhorn_vectors_sparse_internal",
+                    refit_data=refit, use_ft=cell["use_ft"], tr_blocks=2 if cell["memory"] == "small" else 1)
 
 
-def sc_approxw(rng):
-    n_cols, dim = int(rng.randint(5, 9)), int(rng.randint(2, 4))
-    kw = {"n_components": ot_components(rng, "euclidean", "approx", 0, dim), "random_state": int(rng.randint(1000))}
-    vecs = rng.normal(size=(n_cols, dim))
-    X = ot_matrix(rng, int(rng.randint(6, 14)), n_cols, str(rng.choice(["csr", "csc", "coo"])))
-    pool = [freeze((ot_matrix(rng, 4, n_cols), {"vectors": vecs})), freeze((X.tocsr()[:3], {"vectors": vecs}))]
-    return Scenario(V.ApproximateWassersteinVectorizer, "ApproximateWassersteinVectorizer(%r)" % kw, freeze(kw),
-                    freeze((X, {"vectors": vecs})), pool, seeded=True)
+def cells_approxw(seed):
+    return rotate(cross(power=[1.0, 0.5], fmt=OT_FMT), seed, vec=list(VEC_FIT), use_ft=[False, True])
+
+
+def sc_approxw(rng, cell, fx):
+    n_cols, dim = 6, int(rng.randint(2, 4))
+    kw = {"n_components": ot_components(rng, "euclidean", "approx", 0, dim), "random_state": int(rng.randint(1000)),
+          "normalization_power": cell["power"]}
+    fitd, pool, refit, poison = ot_sparse_data(rng, cell, n_cols, dim, int(rng.randint(8, 14)), with_vec_kw=False)
+    return Scenario(V.ApproximateWassersteinVectorizer, "ApproximateWassersteinVectorizer(%r) X:%s vectors:%s" % (kw, cell["fmt"], cell["vec"]),
+                    freeze(kw), fitd, pool, poison=poison, seeded=True, refit_data=refit, use_ft=cell["use_ft"])
 
 
 # ---- transformers
-def count_matrix(rng, n_rows, n_cols, fmt, explicit_zero=True, unsorted=True):
+def count_dense(rng, n_rows, n_cols):
     M = (rng.poisson(1.0, size=(n_rows, n_cols)) * (rng.rand(n_rows, n_cols) < 0.6)).astype(np.float64)
     M[0, 0] = 2.0
     M[1 % n_rows, 1 % n_cols] = 1.0
-    A = getattr(sp, fmt + "_matrix")(M)
-    if fmt in ("csr", "csc") and A.nnz > 2:
-        if unsorted:                                   # reverse the entries of the first non-trivial row/column
-            for i in range(len(A.indptr) - 1):
-                lo, hi = A.indptr[i], A.indptr[i + 1]
-                if hi - lo >= 2:
-                    A.indices[lo:hi] = A.indices[lo:hi][::-1].copy()
-                    A.data[lo:hi] = A.data[lo:hi][::-1].copy()
-                    A.has_sorted_indices = False
-                    break
-        if explicit_zero:
-            A.data[A.nnz - 1] = 0.0                    # an explicit zero
-    return A
+    M[:, n_cols - 1] = np.maximum(M[:, n_cols - 1], 1.0)      # no empty row
+    M[n_rows - 1, :] = np.maximum(M[n_rows - 1, :], 1.0)      # no empty column
+    M[0, n_cols - 1] = 0.0                                    # ... and at least one zero to store explicitly
+    M[0, 1] = max(M[0, 1], 1.0)
+    return M
 
 
-def sc_infoweight(rng):
-    kw = {"prior_strength": float(rng.choice([1e-4, 0.1, 1.0])), "approx_prior": bool(rng.rand() < 0.5)}
-    n_rows, n_cols = int(rng.randint(4, 9)), int(rng.randint(3, 7))
-    fmt = str(rng.choice(["csr", "csc", "csc", "coo"]))
-    X = count_matrix(rng, n_rows, n_cols, fmt, explicit_zero=rng.rand() < 0.5, unsorted=rng.rand() < 0.7)
-    fk = {}
-    if rng.rand() < 0.3:
-        fk["y"] = rng.randint(0, 2, size=n_rows)
-    pool = [freeze((count_matrix(rng, 4, n_cols, "csc"), {})), freeze((count_matrix(rng, 3, n_cols, "csr"), {})),
-            freeze((X, {}))]
-    return Scenario(T.InformationWeightTransformer, "InformationWeightTransformer(%r) X=%s y=%s" % (kw, fmt, "y" in fk),
-                    freeze(kw), freeze((X, fk)), pool)
+def mirror(M):
+    """boundary data: the matrix is made invariant under exchanging columns 1 and 3 together with rows 2 and 3, so it has
+    a singular vector with entries of equal size and opposite sign (a tie for every sign convention)"""
+    M = M.copy()
+    M[:, 3] = M[:, 1]
+    M[2:6] = 0.0
+    M[2, 1] = M[3, 3] = M[4, 1] = M[5, 3] = 2.0          # (twice, so that this direction is among the leading ones)
+    return M
 
 
-def sc_rowdenoise(rng):
-    kw = {"normalize": bool(rng.rand() < 0.5), "em_background_prior": float(rng.choice([5.0, 10.0]))}
-    n_rows, n_cols = int(rng.randint(4, 9)), int(rng.randint(3, 7))
-    fmt = str(rng.choice(["csr", "csr", "csc", "coo"]))
-    X = count_matrix(rng, n_rows, n_cols, fmt, explicit_zero=True, unsorted=rng.rand() < 0.5)
-    pool = [freeze((count_matrix(rng, 4, n_cols, "csr"), {})), freeze((X, {}))]
-    return Scenario(T.RowDenoisingTransformer, "RowDenoisingTransformer(%r) X=%s" % (kw, fmt), freeze(kw), freeze((X, {})), pool)
+def matrix_like(cls, name, kw, rng, cell, fit_fmts, pool_fmts, fit_kw=None, seeded=False, n_cols=None, strict_shape=False):
+    n_rows, n_cols = int(rng.randint(6, 10)), n_cols or int(rng.randint(4, 7))
+    ff = lambda j: rot(fit_fmts, cell["fmt"], j)
+    pf = lambda j: rot(pool_fmts, cell["fmt"], j)
+    X, X2 = count_dense(rng, n_rows, n_cols), count_dense(rng, n_rows, n_cols)
+    if cell.get("data") == "mirror":
+        X, X2 = mirror(X), mirror(X2)
+    A, B, C = count_dense(rng, 5, n_cols), count_dense(rng, 5, n_cols), count_dense(rng, 3, n_cols)
+    fk = fit_kw or (lambda: {})
+    pool = [freeze((mat_fmt(A, pf(1)), {})), freeze((mat_fmt(B, pf(1)), {})), freeze((mat_fmt(A, pf(2)), {})),
+            freeze((mat_fmt(C, pf(3)), {})), freeze((mat_fmt(X, pf(4)), {})), freeze((mat_fmt(B, pf(5)), {}))]
+    fkw = fk()
+    return Scenario(cls, "%s(%r) X:%s%s %s" % (name, kw, cell["fmt"], " y" if fkw else "", cell.get("data", "")), freeze(kw), freeze((mat_fmt(X, ff(0)), fkw)), pool,
+                    seeded=seeded, refit_data=freeze((mat_fmt(X2, ff(3)), fk())), use_ft=cell["use_ft"],
+                    poison=(lambda: (mat_fmt(count_dense(rng, 3, n_cols + 2), "csr"), {})) if strict_shape else (lambda: ("not a matrix", {})))
 
 
-def sc_cfc(rng):
-    kw = {"n_components": 2, "algorithm": str(rng.choice(["randomized", "arpack"])), "random_state": int(rng.randint(1000))}
-    n_rows, n_cols = int(rng.randint(6, 10)), int(rng.randint(4, 8))
-    fmt = str(rng.choice(["csr", "csc"]))
-    X = count_matrix(rng, n_rows, n_cols, fmt, explicit_zero=rng.rand() < 0.5, unsorted=rng.rand() < 0.5)
-    pool = [freeze((count_matrix(rng, 4, n_cols, "csr"), {})), freeze((X, {}))]
-    return Scenario(T.CountFeatureCompressionTransformer, "CountFeatureCompressionTransformer(%r) X=%s" % (kw, fmt), freeze(kw),
-                    freeze((X, {})), pool, seeded=True)
+INFO_FMT = SPARSE + ["ndarray"]
 
 
-def seqs(rng, n=None, minlen=6):
-    n = n or rng.randint(2, 5)
-    return [rng.normal(size=rng.randint(minlen, 20)) for _ in range(n)]
+def cells_infoweight(seed):
+    return rotate(cross(approx=[True, False], y=[False, True], fmt=INFO_FMT), seed, use_ft=[False, True], prior=[1e-4, 0.1, 1.0], data=["random", "mirror"])
 
 
-def sc_sliding(rng):
-    w = int(rng.randint(2, 5))
-    kw = {"window_width": w, "window_stride": int(rng.randint(1, 3))}
+def sc_infoweight(rng, cell, fx):
+    kw = {"prior_strength": cell["prior"], "approx_prior": cell["approx"]}
+    n = [None]
+    fk = (lambda: {"y": np.arange(64)[: n[0]] % 2}) if cell["y"] else None
+    # y must have as many entries as X has rows: fix the row count first
+    state = rng.get_state()
+    n[0] = int(rng.randint(6, 10))
+    rng.set_state(state)
+    return matrix_like(T.InformationWeightTransformer, "InformationWeightTransformer", kw, rng, cell, INFO_FMT, INFO_FMT, fit_kw=fk)
+
+
+def cells_rowdenoise(seed):
+    return rotate(cross(normalize=[False, True], fmt=SPARSE), seed, use_ft=[False, True], prior=[5.0, 10.0], data=["random", "mirror"])
+
+
+def sc_rowdenoise(rng, cell, fx):
+    kw = {"normalize": cell["normalize"], "em_background_prior": cell["prior"]}
+    return matrix_like(T.RowDenoisingTransformer, "RowDenoisingTransformer", kw, rng, cell, SPARSE, SPARSE)
+
+
+CFC_FIT = ["csr", "csc", "coo", "dia", "bsr", "csr_unsorted", "csc_unsorted", "csr_zeros", "csc_zeros"]     # fit reads X.data: no lil / dok
+
+
+def cells_cfc(seed):
+    return rotate(cross(algorithm=["randomized", "arpack"], fmt=CFC_FIT), seed, use_ft=[False, True], data=["random", "mirror"])
+
+
+def sc_cfc(rng, cell, fx):
+    kw = {"n_components": 2, "algorithm": cell["algorithm"], "random_state": int(rng.randint(1000))}
+    return matrix_like(T.CountFeatureCompressionTransformer, "CountFeatureCompressionTransformer", kw, rng, cell, CFC_FIT,
+                       CFC_FIT + ["lil", "dok"], seeded=True, n_cols=int(rng.randint(5, 8)), strict_shape=True)
+
+
+def seqs(rng, n, size=None):
+    return [rng.normal(size=size or rng.randint(8, 20)) for _ in range(n)]
+
+
+SEQ_CONT = {"list_arr": lambda v: list(v), "tuple_arr": lambda v: tuple(v), "list_list": lambda v: [x.tolist() for x in v],
+            "nd2": lambda v: np.array(list(v)), "list_series": lambda v: [pd.Series(x) for x in v]}
+
+
+def seq_like(cls, name, kw, rng, cell, claim=True):
+    names = list(SEQ_CONT)
+    cont = lambda j: SEQ_CONT[rot(names, cell["cont"], j)]
+    D, A = seqs(rng, 3, size=12), seqs(rng, 3, size=10)
+    B = [a[::-1] * 2.0 for a in A]
+    pool = [freeze((cont(1)(A), {})), freeze((cont(1)(B), {})), freeze((cont(2)(D[:1]), {})), freeze((cont(3)(A), {})), freeze((cont(4)(B), {}))]
+    return Scenario(cls, "%s(%r) cont:%s" % (name, kw, cell["cont"]), freeze(kw), freeze((cont(0)(D), {})), pool,
+                    claim_seed=claim, compare_attrs=claim, refit_data=freeze((cont(0)([d * -1.0 for d in D]), {})),
+                    use_ft=cell["use_ft"], poison=lambda: ([np.arange(12.0), "nope"], {}))
+
+
+def cells_sliding(seed):
+    cells = cross(sample=[None, "index", "random"], kernels=[False, True])
+    return rotate(cells, seed, cont=list(SEQ_CONT), use_ft=[False, True])
+
+
+def sc_sliding(rng, cell, fx):
+    w = fx["width"]
+    kw = {"window_width": w, "window_stride": fx["stride"]}
     claim = True
-    r = rng.rand()
-    if r < 0.25:
+    if cell["sample"] == "random":
         kw["window_sample"] = "random"
-        kw["window_sample_size"] = int(rng.randint(1, w + 1))
+        kw["window_sample_size"] = max(1, w - 1)
         claim = False         # documented as random, no seed parameter (np.random.choice in fit)
-    elif r < 0.5:
+    elif cell["sample"] == "index":
         kw["window_sample"] = np.arange(w)[::-1].copy()          # an index array: a caller-owned parameter object
-    if rng.rand() < 0.3:
+    if cell["kernels"]:
         kw["kernels"] = [("differences", 0, 1, 1)]
-    D = seqs(rng)
-    pool = [freeze((seqs(rng), {})), freeze((D[:1], {}))]
-    return Scenario(T.SlidingWindowTransformer, "SlidingWindowTransformer(%r)" % kw, freeze(kw), freeze((D, {})), pool,
-                    claim_seed=claim, compare_attrs=claim)
+    return seq_like(T.SlidingWindowTransformer, "SlidingWindowTransformer", kw, rng, cell, claim=claim)
 
 
-def sc_seqdiff(rng):
-    kw = {"stride": int(rng.randint(1, 4))}
-    D = seqs(rng)
-    pool = [freeze((seqs(rng), {})), freeze((D[:1], {}))]
-    return Scenario(T.SequentialDifferenceTransformer, "SequentialDifferenceTransformer(%r)" % kw, freeze(kw), freeze((D, {})), pool)
+def fx_sliding(rng):
+    return {"width": int(rng.randint(2, 5)), "stride": int(rng.randint(1, 3))}
 
 
-def sc_categorical(rng):
-    n = int(rng.randint(6, 15))
-    df = pd.DataFrame({"obj": [["x", "y", "z"][rng.randint(3)] for _ in range(n)],
-                       "d1": [VOC[rng.randint(4)] for _ in range(n)],
-                       "d2": [VOC[rng.randint(6)] for _ in range(n)]})
-    desc = ["d1", "d2"] if rng.rand() < 0.5 else "d1"
-    kw = {"object_column_name": "obj", "descriptor_column_name": desc, "include_column_name": bool(rng.rand() < 0.5),
-          "unique_values": bool(rng.rand() < 0.5)}
-    if isinstance(desc, str):
-        kw["include_column_name"] = False
-    pool = [freeze((df.iloc[: max(2, n // 2)].reset_index(drop=True), {})), freeze((df, {}))]
+def cells_seqdiff(seed):
+    return rotate(cross(stride=[1, 2, 3]), seed, cont=list(SEQ_CONT), use_ft=[False, True])
+
+
+def sc_seqdiff(rng, cell, fx):
+    return seq_like(T.SequentialDifferenceTransformer, "SequentialDifferenceTransformer", {"stride": cell["stride"]}, rng, cell)
+
+
+def cells_categorical(seed):
+    return cross(desc=["single", "multi"], unique=[False, True], include=[False, True])
+
+
+def sc_categorical(rng, cell, fx):
+    n = int(rng.randint(8, 15))
+    mk = lambda: pd.DataFrame({"obj": [["x", "y", "z"][rng.randint(3)] for _ in range(n)],
+                               "d1": [VOC[rng.randint(4)] for _ in range(n)], "d2": [VOC[rng.randint(6)] for _ in range(n)]})
+    df, dfB, df2 = mk(), mk(), mk()
+    desc = ["d1", "d2"] if cell["desc"] == "multi" else "d1"
+    kw = {"object_column_name": "obj", "descriptor_column_name": desc, "include_column_name": cell["include"] and cell["desc"] == "multi",
+          "unique_values": cell["unique"]}
+    pool = [freeze((df, {})), freeze((dfB, {})), freeze((df.iloc[: n // 2].reset_index(drop=True), {}))]
     return Scenario(T.CategoricalColumnTransformer, "CategoricalColumnTransformer(%r)" % kw, freeze(kw), freeze((df, {})), pool,
-                    fit_transform_only=True)
+                    fit_transform_only=True, refit_data=freeze((df2, {})), poison=lambda: (pd.DataFrame({"zzz": [1, 2]}), {}))
+
+
+def nofx(rng):
+    return {}
 
 
 REGISTRY = {
-    "TokenCooccurrenceVectorizer": sc_token, "TimedTokenCooccurrenceVectorizer": sc_timed,
-    "NgramCooccurrenceVectorizer": sc_ngramcooc, "MultiSetCooccurrenceVectorizer": sc_multiset,
-    "SkipgramVectorizer": sc_skipgram, "NgramVectorizer": sc_ngram, "LabelledTreeCooccurrenceVectorizer": sc_tree,
-    "EdgeListVectorizer": sc_edgelist, "DistributionVectorizer": sc_distribution, "HistogramVectorizer": sc_histogram,
-    "KDEVectorizer": sc_kde, "LZCompressionVectorizer": sc_lz, "BytePairEncodingVectorizer": sc_bpe,
-    "WassersteinVectorizer": sc_wasserstein, "SinkhornVectorizer": sc_sinkhorn,
-    "ApproximateWassersteinVectorizer": sc_approxw, "InformationWeightTransformer": sc_infoweight,
-    "RowDenoisingTransformer": sc_rowdenoise, "CountFeatureCompressionTransformer": sc_cfc,
-    "SlidingWindowTransformer": sc_sliding, "SequentialDifferenceTransformer": sc_seqdiff,
-    "CategoricalColumnTransformer": sc_categorical,
+    "TokenCooccurrenceVectorizer": (cells_token, sc_token, fx_token),
+    "TimedTokenCooccurrenceVectorizer": (cells_timed, sc_timed, fx_timed),
+    "NgramCooccurrenceVectorizer": (cells_ngramcooc, sc_ngramcooc, fx_ngramcooc),
+    "MultiSetCooccurrenceVectorizer": (cells_multiset, sc_multiset, fx_multiset),
+    "SkipgramVectorizer": (cells_skipgram, sc_skipgram, fx_skipgram),
+    "NgramVectorizer": (cells_ngram, sc_ngram, fx_ngram),
+    "LabelledTreeCooccurrenceVectorizer": (cells_tree, sc_tree, fx_tree),
+    "EdgeListVectorizer": (cells_edgelist, sc_edgelist, nofx),
+    "DistributionVectorizer": (cells_distribution, sc_distribution, fx_distribution),
+    "HistogramVectorizer": (cells_histogram, sc_histogram, fx_histogram),
+    "KDEVectorizer": (cells_kde, sc_kde, fx_kde),
+    "LZCompressionVectorizer": (cells_lz, sc_lz, fx_lz),
+    "BytePairEncodingVectorizer": (cells_bpe, sc_bpe, nofx),
+    "WassersteinVectorizer": (cells_wasserstein, sc_wasserstein, nofx),
+    "SinkhornVectorizer": (cells_sinkhorn, sc_sinkhorn, nofx),
+    "ApproximateWassersteinVectorizer": (cells_approxw, sc_approxw, nofx),
+    "InformationWeightTransformer": (cells_infoweight, sc_infoweight, nofx),
+    "RowDenoisingTransformer": (cells_rowdenoise, sc_rowdenoise, nofx),
+    "CountFeatureCompressionTransformer": (cells_cfc, sc_cfc, nofx),
+    "SlidingWindowTransformer": (cells_sliding, sc_sliding, fx_sliding),
+    "SequentialDifferenceTransformer": (cells_seqdiff, sc_seqdiff, nofx),
+    "CategoricalColumnTransformer": (cells_categorical, sc_categorical, nofx),
 }
 
 
 # ------------------------------------------------------------------ the runner
+def walk(d):
+    out = []
+    for root, dirs, files in os.walk(d):
+        for x in dirs:
+            out.append(os.path.relpath(os.path.join(root, x), d) + "/")
+        for x in files:
+            out.append(os.path.relpath(os.path.join(root, x), d))
+    return sorted(out)
+
+
 class Watch:
-    """all caller-owned objects of a scenario, their pristine snapshots, the watched directories"""
+    """all caller-owned objects of a scenario, their pristine snapshots, the watched directories (recursive listings)"""
     def __init__(self, dirs):
         self.objs, self.snaps, self.dirs = [], [], dirs
-        self.listing = {d: sorted(os.listdir(d)) for d in dirs}
+        self.listing = {d: walk(d) for d in dirs.values()}
 
     def add(self, name, obj):
         self.objs.append((name, obj))
@@ -622,14 +1117,12 @@ class Watch:
             if s1 != s0:
                 out.append({"kind": "caller-object-modified", "detail": "%s changed by %s at %s" % (name, after, diff_where(s0, s1))})
                 self.snaps[j] = s1             # report each modification once
-        for d in self.dirs:
-            now = sorted(os.listdir(d))
+        for label, d in self.dirs.items():
+            now = walk(d)
             if now != self.listing[d]:
-                left = []
-                for x in sorted(set(now) - set(self.listing[d])):
-                    p = os.path.join(d, x)
-                    left.append(x + ("/" + ",".join(sorted(os.listdir(p))) if os.path.isdir(p) else ""))
-                out.append({"kind": "temporary-path-left", "detail": "after %s: %s" % (after, left)})
+                left = sorted(set(now) - set(self.listing[d]))
+                gone = sorted(set(self.listing[d]) - set(now))
+                out.append({"kind": "temporary-path-left", "detail": "after %s: in %s new %s%s" % (after, label, left, (" missing %s" % gone) if gone else "")})
                 self.listing[d] = now          # report each leftover once
 
 
@@ -639,9 +1132,13 @@ def fix_cachedir(kw, cachedir):
     return kw
 
 
-def call(fn, *a, **k):
+def mat(o):
+    return o.make() if isinstance(o, GenOf) else o
+
+
+def call(fn, X, kw):
     try:
-        return fn(*a, **k), None
+        return fn(mat(X), **{k: mat(v) for k, v in kw.items()}), None
     except Exception as e:            # an exception is an outcome, compared by class
         return e, traceback.format_exc()[-500:]
 
@@ -676,20 +1173,62 @@ def degenerate_svd(est):
     if not isinstance(E, np.ndarray) or E.ndim != 2 or min(E.shape) == 0 or not np.all(np.isfinite(E)):
         return False
     sv = np.linalg.svd(E, compute_uv=False)
-    k = min(getattr(est, "n_components", len(sv)), len(sv))
+    k = min(getattr(est, "n_components", len(sv)) or len(sv), len(sv))
     sv = sv[:k]
     if sv[0] == 0 or sv[-1] < 1e-6 * sv[0]:
         return True
     return bool(np.any(np.abs(np.diff(sv)) < 1e-6 * sv[0]))
 
 
-def run_job(name, seed, tmpdir):
-    rng = np.random.RandomState(zlib.crc32(("%s/%d" % (name, seed)).encode()) % (2 ** 31))
-    sc = REGISTRY[name](rng)
-    res = {"est": name, "seed": seed, "desc": sc.desc, "calls": 0, "raised": 0, "aliases": [], "violations": [], "checks": {}}
+def vec_dim(v):
+    if isinstance(v, GenOf):
+        v = v.src
+    if isinstance(v, (list, tuple)) and len(v) and isinstance(v[0], np.ndarray) and v[0].ndim == 2:
+        return v[0].shape[1]
+    return np.shape(v)[1]
+
+
+class Sabotage:
+    """make the k-th call of LOT.<name> raise (the per-block functions are looked up in the module at call time)"""
+    def __init__(self, name, k):
+        self.name, self.k, self.count = name, k, 0
+
+    def __enter__(self):
+        self.orig = getattr(LOT, self.name)
+
+        def faulty(*a, **kk):
+            self.count += 1
+            if self.count == self.k:
+                raise Boom("fault injected into call %d of %s" % (self.k, self.name))
+            return self.orig(*a, **kk)
+        setattr(LOT, self.name, faulty)
+        return self
+
+    def __exit__(self, *exc):
+        setattr(LOT, self.name, self.orig)
+        return False
+
+
+def compare_models(m0, m1, what, viol, suffix=""):
+    """every attribute that the reference fit m1 defines has the same value in m0 (attributes that only m0 has were
+    assigned by transform calls made on it - RowDenoisingTransformer.mix_weights_ - and are not part of the fit)"""
+    for k2 in m1:
+        if k2 not in m0 or not same(m0[k2], m1[k2]):
+            viol.append({"kind": what, "detail": "fitted attribute %s differs%s: %s vs %s%s"
+                         % (k2, suffix, brief(m0.get(k2, ("none",))), brief(m1[k2]), maxdiff(m0.get(k2, ("none",)), m1[k2]))})
+            return
+
+
+def run_cell(name, ci, ncells, cell, seed, fx, dirs, base):
+    import time
+    t0 = time.time()
+    rng = np.random.RandomState(zlib.crc32(("%s/%d/%d" % (name, seed, ci)).encode()) % (2 ** 31))
+    sc = REGISTRY[name][1](rng, cell, fx)
+    res = {"est": name, "seed": seed, "cell_index": ci, "n_cells": ncells, "cell": {k: (v if isinstance(v, (str, int, float, bool, type(None))) else repr(v)) for k, v in cell.items()},
+           "desc": sc.desc, "calls": 0, "raised": 0, "aliases": [], "violations": [], "checks": {}, "history": []}
     viol = res["violations"]
-    cachedir = tempfile.mkdtemp(prefix="cachedir_", dir=os.path.dirname(tmpdir))
-    W = Watch([tmpdir, cachedir])
+    cachedir = tempfile.mkdtemp(prefix="cachedir_", dir=base)
+    W = Watch(dict(dirs, cachedir=cachedir))
     params = fix_cachedir(sc.params(), cachedir)
     for k, v in params.items():
         W.add("constructor parameter %s" % k, v)
@@ -697,72 +1236,76 @@ def run_job(name, seed, tmpdir):
     W.check("the constructor", viol)
 
     def watched_call(what, fn, X, kw):
-        out, tb = call(fn, X, **kw)
+        out, tb = call(fn, X, kw)
         res["calls"] += 1
         if isinstance(out, Exception):
             res["raised"] += 1
         W.check(what + (" (raised %s)" % type(out).__name__ if isinstance(out, Exception) else ""), viol)
         return out
 
+    def fresh_fit(data_factory):
+        e = sc.cls(**fix_cachedir(sc.params(), cachedir))
+        Xf, kwf = data_factory()
+        r, _ = call(e.fit_transform if use_ft else e.fit, Xf, kwf)
+        return e, r
+
+    use_ft = sc.use_ft or sc.fit_transform_only
+    tr_name = "fit_transform" if sc.fit_transform_only else "transform"      # estimators without a transform method
+
     # ---- 2. a fit that raises part-way
-    if sc.fault is not None and rng.rand() < 0.7:
+    if sc.fault is not None:
         kind, k = sc.fault
         X, kw = sc.fit_data()
         W.add("fit input X (faulting fit)", X)
         for a, v in kw.items():
             W.add("fit argument %s (faulting fit)" % a, v)
-        if kind == "svd":
-            orig, count = LOT.randomized_svd, [0]
-
-            def faulty(*a, **kk):
-                count[0] += 1
-                if count[0] == k:
-                    raise Boom("fault injected into block %d" % k)
-                return orig(*a, **kk)
-            LOT.randomized_svd = faulty
-            try:
-                out = watched_call("fit with a fault in block %d" % k, est.fit, X, kw)
-            finally:
-                LOT.randomized_svd = orig
-            res["checks"]["fault_svd"] = type(out).__name__ if isinstance(out, Exception) else "no-raise"
+        if kind == "svd" or kind.startswith("internal:"):
+            target = "randomized_svd" if kind == "svd" else kind.split(":", 1)[1]
+            with Sabotage(target, k):
+                out = watched_call("fit with a fault in call %d of %s" % (k, target), est.fit, X, kw)
         elif kind == "badref":
-            d = X
-            nref = 3
-            kw2 = dict(kw, reference_distribution=np.full(nref, 0.3), reference_vectors=rng.normal(size=(nref, kw["vectors"][0].shape[1])))
+            nref, dim = 3, vec_dim(kw["vectors"])
+            kw2 = dict(kw, reference_distribution=np.full(nref, 0.3), reference_vectors=rng.normal(size=(nref, dim)))
             W.add("invalid reference_distribution", kw2["reference_distribution"])
             W.add("reference_vectors", kw2["reference_vectors"])
-            out = watched_call("fit with an invalid reference distribution", est.fit, d, kw2)
-            res["checks"]["fault_badref"] = type(out).__name__ if isinstance(out, Exception) else "no-raise"
+            out = watched_call("fit with an invalid reference distribution", est.fit, X, kw2)
         elif kind == "gen":
-            def bad(g, at):
-                for i, x in enumerate(g):
-                    if i == at:
-                        raise Boom("generator failed at item %d" % at)
-                    yield x
-            kw2 = dict(kw, vectors=bad(kw["vectors"], k))
+            class BadGen(GenOf):
+                def make(self2):
+                    def g():
+                        for i, x in enumerate(self2.src):
+                            if i == k:
+                                raise Boom("generator failed at item %d" % k)
+                            yield x
+                    return g()
+            kw2 = dict(kw, vectors=BadGen(kw["vectors"].src))
             out = watched_call("fit on a generator failing at item %d" % k, est.fit, X, kw2)
-            res["checks"]["fault_gen"] = type(out).__name__ if isinstance(out, Exception) else "no-raise"
+        res["checks"]["fault_" + kind.split(":")[0]] = type(out).__name__ if isinstance(out, Exception) else "no-raise"
         est = sc.cls(**params)          # the property says nothing about a half-fitted estimator: start again
 
-    # ---- 3. fit, history
+    # ---- 3. fit
     X, kw = sc.fit_data()
     W.add("fit input X", X)
     for a, v in kw.items():
         W.add("fit argument %s" % a, v)
-    use_ft = rng.rand() < 0.4 or sc.fit_transform_only
-    tr_name = "fit_transform" if sc.fit_transform_only else "transform"      # estimators without a transform method
     fit_out = watched_call("fit_transform" if use_ft else "fit", est.fit_transform if use_ft else est.fit, X, kw)
     if isinstance(fit_out, Exception):
         res["error"] = "fit raised %s: %s" % (type(fit_out).__name__, str(fit_out)[:200])
+        res["wall_s"] = round(time.time() - t0, 2)
         return res
-    # aliases: fitted attributes that ARE caller objects (informational; a later in-place edit through such an
-    # alias is caught by the snapshots, which stay under watch for the whole history)
+    # aliases: fitted attributes that ARE caller objects.  Informational (a later in-place edit through such an alias
+    # is caught by the snapshots, which stay under watch for the whole history), except where the library documents
+    # that it works on a copy (sc.no_alias): there the identity is a violation.
     caller = {}
     for _, o in W.objs:
         mutable_ids(o, caller)
     for k2, v in vars(est).items():
         if k2 not in params and id(v) in caller and v is caller[id(v)]:
             res["aliases"].append(k2)
+    for pname, attrs in sc.no_alias.items():
+        for a in attrs:
+            if hasattr(est, a) and getattr(est, a) is params.get(pname):
+                viol.append({"kind": "caller-object-aliased", "detail": "fitted attribute %s IS the caller's %s object (documented to be a copy)" % (a, pname)})
     model0 = public_model(est) if sc.compare_attrs else {}
     try:
         clone0 = copy.deepcopy(est)
@@ -770,89 +1313,149 @@ def run_job(name, seed, tmpdir):
         clone0 = None
     # ---- 5. two fits (same integer random_state where there is one) give the same model
     if sc.compare_attrs and sc.claim_seed:
-        fresh = sc.cls(**fix_cachedir(sc.params(), cachedir))
-        Xf, kwf = sc.fit_data()
-        r, _ = call(fresh.fit_transform if use_ft else fresh.fit, Xf, **kwf)
+        fresh, r = fresh_fit(sc.fit_data)
         if isinstance(r, Exception):
             res["error"] = "second fit raised %s" % type(r).__name__
+            res["wall_s"] = round(time.time() - t0, 2)
             return res
         model1 = public_model(fresh)
         res["checks"]["attrs_compared"] = len(model1)
         if degenerate_svd(est):
             res["checks"]["degenerate_svd"] = 1       # more components than the rank: the model is not determined
         else:
-            for k2 in model0:
-                if k2 not in model1 or not same(model0[k2], model1[k2]):
-                    viol.append({"kind": "two-fits-differ", "detail": "fitted attribute %s differs between two fits%s: %s vs %s"
-                                 % (k2, " with random_state=%r" % params.get("random_state") if sc.seeded else "",
-                                    brief(model0[k2]), brief(model1.get(k2, ("none",))))})
-                    break
+            compare_models(model0, model1, "two-fits-differ", viol,
+                           " between two fits%s" % (" with random_state=%r" % params.get("random_state") if sc.seeded else ""))
+
+    def reference(i, clone, data_factory):
+        """a single call of input #i on an untouched copy of the fitted estimator / a freshly fitted estimator"""
+        if clone is not None:
+            ref_est = copy.deepcopy(clone)
+        elif sc.claim_seed:
+            ref_est, r = fresh_fit(data_factory)
+            if isinstance(r, Exception):
+                return None
+        else:
+            return None
+        Xi, kwi = sc.pool[i]()
+        o, _ = call(getattr(ref_est, tr_name), Xi, kwi)
+        return canon(o)
+
+    def check_history(hist, clone, data_factory, label):
+        refs = {}
+        for i in sorted({i for _, i, _ in hist}):
+            refs[i] = reference(i, clone, data_factory)
+        for step, i, c in hist:
+            if refs.get(i) is not None and not same(c, refs[i]):
+                viol.append({"kind": "history-differs-from-single-call",
+                             "detail": "%s: call %d of the history %s (input #%d) returned %s, a single call on a fresh fit returns %s%s"
+                                       % (label, step, res["history"], i, brief(c), brief(refs[i]), maxdiff(c, refs[i]))})
+                break
+
     hist = []
+    pool = []
     if sc.has_transform:
         pool = [f() for f in sc.pool]
         for i, (Xi, kwi) in enumerate(pool):
             W.add("transform input #%d" % i, Xi)
             for a, v in kwi.items():
                 W.add("transform argument %s of input #%d" % (a, i), v)
-        order = [int(rng.randint(len(pool))) for _ in range(int(rng.randint(3, 7)))]
-        if len(pool) > 1:
-            order[0], order[-1] = 0, 0                       # the same object first and last
-        poison_at = int(rng.randint(1, len(order))) if (sc.poison is not None and rng.rand() < 0.6) else None
-        is_gen = any(isinstance(x, types.GeneratorType) for x in (pool[0][0],) + tuple(pool[0][1].values()))
-        for step, i in enumerate(order):
-            if poison_at == step:
+        plan = [("t", 0), ("t", 1), ("t", 0)]
+        if sc.fault_tr:
+            plan += [("fault", 1), ("t", 0)]
+        if sc.poison is not None:
+            plan += [("poison", 1)]
+        plan += [("t", i) for i in range(2, len(pool))] + [("t", 1), ("t", 0)]
+        trf = getattr(est, tr_name)
+        for step, (what, i) in enumerate(plan, 1):
+            if what == "t":
+                out = watched_call("%s call %d (input #%d)" % (tr_name, step, i), trf, pool[i][0], pool[i][1])
+                hist.append((step, i, canon(out)))
+                res["history"].append("#%d" % i)
+            elif what == "fault":
+                kf = 2 if sc.tr_blocks >= 2 else 1
+                with Sabotage(sc.fault_tr, kf):
+                    out = watched_call("%s call %d (input #%d) with a fault in call %d of %s" % (tr_name, step, i, kf, sc.fault_tr), trf, pool[i][0], pool[i][1])
+                res["checks"]["fault_transform"] = type(out).__name__ if isinstance(out, Exception) else "no-raise"
+                res["history"].append("#%d!fault" % i)
+            else:
                 Xp, kwp = sc.poison()
-                W.add("poisoned transform input", Xp)
-                watched_call("%s of a malformed input" % tr_name, getattr(est, tr_name), Xp, kwp)
-            if is_gen:                                       # a generator can be consumed once: a fresh one per call
-                Xi, kwi = sc.pool[i]()
-            else:
-                Xi, kwi = pool[i]
-            out = watched_call("%s call %d (input #%d)" % (tr_name, step + 1, i), getattr(est, tr_name), Xi, kwi)
-            hist.append((step, i, canon(out)))
-        # ---- 4. single-call references: one transform on an untouched deep copy of the estimator taken right after fit
-        # (a freshly constructed and fitted estimator when the object cannot be copied and its fit is deterministic)
-        refs = {}
-        for i in sorted({i for _, i, _ in hist}):
-            if clone0 is not None:
-                ref_est = copy.deepcopy(clone0)
-            elif sc.claim_seed:
-                ref_est = sc.cls(**fix_cachedir(sc.params(), cachedir))
-                Xf, kwf = sc.fit_data()
-                r, _ = call(ref_est.fit_transform if use_ft else ref_est.fit, Xf, **kwf)
-                if isinstance(r, Exception):
-                    res["error"] = "second fit raised %s" % type(r).__name__
-                    return res
-            else:
-                break
-            Xi, kwi = sc.pool[i]()
-            o, _ = call(getattr(ref_est, tr_name), Xi, **kwi)
-            refs[i] = canon(o)
+                W.add("malformed transform input", Xp)
+                out = watched_call("%s call %d of a malformed input" % (tr_name, step), trf, Xp, kwp)
+                res["checks"]["poison"] = type(out).__name__ if isinstance(out, Exception) else "no-raise"
+                res["history"].append("malformed")
+        # ---- 4. single-call references
         res["checks"]["reference"] = "deepcopy" if clone0 is not None else "fresh-fit"
-        for step, i, c in hist:
-            if i in refs and not same(c, refs[i]):
-                viol.append({"kind": "history-differs-from-single-call",
-                             "detail": "transform call %d of the history %s (input #%d) returned %s, a single call on a fresh fit returns %s"
-                                       % (step + 1, [j for _, j, _ in hist], i, brief(c), brief(refs[i]))})
-                break
+        check_history(hist, clone0, sc.fit_data, "after fit")
         res["checks"]["history"] = len(hist)
+
+    # ---- 6. refit of the same object on other data of the same shape
+    if sc.refit_data is not None and sc.claim_seed:
+        X2, kw2 = sc.refit_data()
+        W.add("refit input X", X2)
+        for a, v in kw2.items():
+            W.add("refit argument %s" % a, v)
+        res["history"].append("refit")
+        out = watched_call("refit (%s)" % ("fit_transform" if use_ft else "fit"), est.fit_transform if use_ft else est.fit, X2, kw2)
+        if isinstance(out, Exception):
+            res["error"] = "refit raised %s: %s" % (type(out).__name__, str(out)[:200])
+        else:
+            fresh2, r = fresh_fit(sc.refit_data)
+            if isinstance(r, Exception):
+                res["error"] = "fresh fit on the refit data raised %s" % type(r).__name__
+            else:
+                if sc.compare_attrs:
+                    if degenerate_svd(fresh2):
+                        res["checks"]["degenerate_svd_refit"] = 1
+                    else:
+                        compare_models(public_model(est), public_model(fresh2), "refit-differs-from-fresh-fit", viol,
+                                       " between the refitted estimator and a fresh estimator fitted on the same data")
+                if sc.fit_transform_only and not same(canon(out), canon(r)):
+                    viol.append({"kind": "refit-differs-from-fresh-fit", "detail": "fit_transform of the refit returned %s, a fresh estimator %s"
+                                 % (brief(canon(out)), brief(canon(r)))})
+                if sc.has_transform and not sc.fit_transform_only:
+                    try:
+                        clone2 = copy.deepcopy(fresh2)
+                    except Exception:
+                        clone2 = None
+                    hist2 = []
+                    for step, i in enumerate([1, 0], 1):
+                        o = watched_call("%s call %d after the refit (input #%d)" % (tr_name, step, i), getattr(est, tr_name), pool[i][0], pool[i][1])
+                        hist2.append((step, i, canon(o)))
+                        res["history"].append("#%d" % i)
+                    check_history(hist2, clone2, sc.refit_data, "after the refit")
+                    res["checks"]["refit_history"] = len(hist2)
     W.check("the end of the scenario", viol)
     res["watched"] = len(W.objs)
+    res["wall_s"] = round(time.time() - t0, 2)
     return res
 
 
 def main():
     payload = json.load(open(sys.argv[1]))
     tmpdir = payload["tmpdir"]
+    base = os.path.dirname(tmpdir)
     assert os.path.realpath(tempfile.gettempdir()) == os.path.realpath(tmpdir), (tempfile.gettempdir(), tmpdir)
+    cwd = os.path.join(base, "cwd")
+    os.makedirs(cwd, exist_ok=True)
+    os.chdir(cwd)
+    dirs = {"TMPDIR": tmpdir, "the working directory": cwd}
     out = []
-    for name, seed in payload["jobs"]:
-        try:
-            out.append(run_job(name, seed, tmpdir))
-        except Exception as e:
-            out.append({"est": name, "seed": seed, "error": "harness: %s %s" % (type(e).__name__, str(e)[:300]),
-                        "tb": traceback.format_exc()[-1500:], "violations": []})
-        json.dump(out, open(sys.argv[2], "w"))
+    for job in payload["jobs"]:
+        # {"est", "seed", "part", "nparts", "only": cell index | None, "where": {dimension: [values]} | None}
+        name, seed = job["est"], job["seed"]
+        cells = REGISTRY[name][0](seed)
+        fx = REGISTRY[name][2](np.random.RandomState(zlib.crc32(("%s/%d" % (name, seed)).encode()) % (2 ** 31)))
+        todo = [ci for ci, c in enumerate(cells) if all(c.get(k) in vals for k, vals in (job.get("where") or {}).items())]
+        todo = todo[job.get("part", 0)::job.get("nparts", 1)]
+        for ci in todo:
+            if job.get("only") is not None and ci != job["only"]:
+                continue
+            try:
+                out.append(run_cell(name, ci, len(cells), cells[ci], seed, fx, dirs, base))
+            except Exception as e:
+                out.append({"est": name, "seed": seed, "cell_index": ci, "n_cells": len(cells), "cell": {}, "error": "harness: %s %s" % (type(e).__name__, str(e)[:300]),
+                            "tb": traceback.format_exc()[-1500:], "violations": []})
+            json.dump(out, open(sys.argv[2], "w"))
     json.dump(out, open(sys.argv[2], "w"))
 
 
